@@ -14,30 +14,30 @@ func init() {
 	register(&PropSpec{
 		ID:    "C19",
 		Title: "Asynchronous sync delivers every blob eventually and its queue is durable",
-		Explanation: "Decided (structural necessary conditions, all resolved through types): " +
-			"Y-dequeue — every use of the SyncHandler's persistent queue is classified; a row is removed (queue.Delete) and the in-memory needCopy entry dropped only where an error parameter is known nil; that completion function is invoked only from a deferred literal of the copy function with the copy function's own error result; every nil return of the copy function is dominated by: a successful Fetch of the job's ref from sh.from, a successful full read whose reader passes through the hash that HashMatches later approves, HashMatches==true for the job's ref, a successful ReceiveBlob on sh.to of that same ref fed from the very buffer that was read, and a size acknowledgement of the destination that is equal (through the dominating equality facts) to the number of bytes sent. " +
-			"Y-enqueue — every function that builds a queue-backed handler registers the handler's enqueue method as receive hook on the hub of the handler's own source storage on every path that hands the handler out; every may-be-nil return of enqueue is on the success edge of queue.Set, returns Set's own error, or is on the duplicate edge of the in-memory add (whose 'false' result is returned only when the ref is already present); callers of enqueue do not discard its error; every BlobHub implementation runs the registered hooks and returns nil only after the join of the hook group reported nil; the function that calls NotifyBlobReceived returns its error and notifies the hub of the store that received the blob. " +
-			"Y-reload — every function that builds a queue-backed handler passes readQueueToMemory on that handler on every path that hands the handler out, and hands none out when it failed (NewSyncHandler is excepted while it has no caller in the module); readQueueToMemory feeds every element produced by the queue enumerator to the in-memory add and returns the enumerator's error; the enumerator scans the whole queue (Find(\"\",\"\")), skips a row only when parsing it failed, and returns the iterator's Close error. " +
-			"Y-start — every path that hands out a queue-backed handler has started its copy loop. " +
-			"Y-codec — the queue row written by enqueue (key: Ref.String of the job, value: decimal size) is what the reload parser reads (blob.Parse, base-10 ParseUint of at least 32 bits) and what the dequeue deletes (same key function). " +
+		Explanation: "Decided (structural necessary conditions, all resolved through types and roles, never through names of internal helpers). Every rule that looks for a site 'in function F' looks in F's EFFECTIVE BODY: F plus, transitively (depth 5), the same-package functions, methods and function literals F calls statically, with the helper's parameters standing for the caller's arguments and its results for what the helper returns; a call of helper H counts as 'P succeeded' behind the call on H's err==nil edge (or where H's own error is what is returned) when P succeeded before every return of H that may report success; struct fields never written after the initialisation of a freshly allocated struct (copyStatus.sb) are read through to the initialising value. " +
+			"Y-dequeue — every use of the SyncHandler's persistent queue is classified (also when the queue value is handed to a helper); a row is removed (queue.Delete) and the in-memory needCopy entry dropped only where an error parameter is known nil (in the function itself, or — for a helper without error parameter — at every one of its callers, 4 levels); a function that hands its own error parameter (or what its own *error parameter points to) on to such a completion function is a completion function itself; the outermost completion is invoked only from a literal deferred by the copy function with the copy function's own error result, or deferred itself with the address of that result, or is that deferred literal (guard: the result, read when the literal runs, is nil); every nil return of the copy function is dominated, in its effective body, by: a successful Fetch of the job's ref from sh.from, a successful full read whose reader passes through the hash that HashMatches later approves, HashMatches==true for the job's ref, a successful ReceiveBlob on sh.to of that same ref fed from the very buffer that was read, and a size acknowledgement of the destination that is equal (through the equality facts dominating the success point, those established inside successfully returned helpers included) to the number of bytes sent. " +
+			"Y-enqueue — a builder is, by role, a function in which a SyncHandler's queue field is set; a builder that is an unexported helper handing the handler to callers that are all known passes its open obligations on to them; every builder registers, on every path that hands the handler out (directly or in a helper all of whose paths do it), a method of the handler that reaches queue.Set through static calls as receive hook on the hub of the handler's own source storage; every may-be-nil return of that hook is, in its effective body, behind a successful queue.Set (err==nil edge or Set's own error returned), or on the duplicate edge of an in-memory add that returns 'false' only when the ref is already present; callers of the hook method do not discard its error; every BlobHub implementation runs the registered hooks (in NotifyBlobReceived or in a helper whose error it propagates) and returns nil only after the join of the hook group reported nil; the function that calls NotifyBlobReceived returns its error and notifies the hub of the store that received the blob (a helper that is handed the store and the SizedRef is checked at its callers). " +
+			"Y-reload — the queue enumerator is, by role, the function enclosing queue.Find, the reload function the one that makes the channel the enumerator sends on; every builder passes the reload of that handler (directly or through a helper at whose every successful return the reload has succeeded) on every path that hands the handler out, and hands none out when it failed (NewSyncHandler is excepted while it has no caller in the module); in the reload function every element received from the enumerator's channel is handed to the in-memory add before the next one is received (the receive loop may sit in a helper) and every return yields the enumerator's error; the enumerator scans the whole queue (Find(\"\",\"\")), skips a row only when parsing it failed (the parser may be a helper: on the paths a parsing row takes it returns true / nil), and returns the iterator's Close error. " +
+			"Y-start — every path that hands out a queue-backed handler has started its copy loop: go syncLoop, or go of a literal/function/method all of whose paths reach syncLoop on that handler, possibly inside a helper that is handed the handler. " +
+			"Y-codec — the queue row written under the registered hook (key: Ref.String of the job, value: decimal size of the job, followed through helper parameters) is what the reload parser reads (blob.Parse of the iterator's key, base-10 ParseUint of at least 32 bits of its value, in the enumerator or a helper handed key and value) and what the dequeue deletes (same key function, followed through the parameters of single-caller helpers). " +
 			"Y-merge — ListMissingDestinationBlobs closes destMissing on every exit; a source element is taken without being sent to destMissing only under the fact that it equals the destination's head; everything sent comes from the source. " +
-			"Y-enum-close — the enumerator values are computed, not listed: every call of a value of the type of runSync's enumSrc parameter in pkg/server, with the functions it can denote (static callee, method value, closure, the literal returned by a helper, the arguments of every static caller when the value is a parameter); each such enumerator closes its output channel on every path to every return (close, defer, deferred literal, or a callee/literal that is itself checked), because its consumer (runSync, readQueueToMemory) receives from that channel until it is closed. " +
-			"Y-stop — in every consumer, on every path that leaves the loop receiving from the element channel on another edge than 'channel closed' and then reaches a receive of the enumerator's result, the interrupt channel handed to the enumerator has been closed before that receive (a plain close, a local function or sync.Once/sync.OnceFunc wrapper all of whose functions close it; a deferred close in the consumer's own frame does not count, it runs after the wait); every enumerator of a consumer that can leave its loop early sends on its output channel only as a case of a select that also receives from its interrupt parameter (or that has a default case), helpers handed both channels included. " +
-			"NOT decided: eventual delivery in general (wake-ups, retry timing, termination of the enumerated stores' own EnumerateBlobs, that an interrupted enumerator returns promptly, that enumeratePendingBlobs' batch bound stays below the capacity of the work channel — no longer needed for liveness once Y-stop holds, and not phrased as a rule), bit-identity of what a destination stores, behaviour of the queue KV itself across a crash, interleavings of enqueue with a concurrent copy, that every store receives blobs only through blobserver.Receive (C02), any concrete fault schedule or restart.",
+			"Y-enum-close — the enumerator type is found by role (the func(chan<- blob.SizedRef, <-chan T) error parameter type of a pkg/server function); the enumerator values are computed, not listed: every call of a value of that type in pkg/server, with the functions it can denote (static callee, method value, closure, the literal returned by a helper, the arguments of every static caller when the value is a parameter); each such enumerator closes its output channel on every path to every return (close, defer, deferred literal, or a callee/literal that is itself checked), because its consumer receives from that channel until it is closed. " +
+			"Y-stop — the consumer of a launch is the function that makes the element channel (followed through the parameters of a single-caller launcher method); in every consumer, on every path that leaves the loop receiving from the element channel on another edge than 'channel closed' and then reaches a receive of the enumerator's result, the interrupt channel handed to the enumerator has been closed before that receive (a plain close, a local function or sync.Once/sync.OnceFunc wrapper all of whose functions close it; a deferred close in the consumer's own frame does not count); a helper that only ranges over the element channel until it is closed counts as such a loop; every enumerator of a consumer that can leave its loop early sends on its output channel only as a case of a select that also receives from its interrupt parameter (or that has a default case), helpers handed both channels included. " +
+			"NOT decided: eventual delivery in general (wake-ups, retry timing, termination of the enumerated stores' own EnumerateBlobs, that an interrupted enumerator returns promptly, that enumeratePendingBlobs' batch bound stays below the capacity of the work channel), bit-identity of what a destination stores, behaviour of the queue KV itself across a crash, interleavings of enqueue with a concurrent copy, that every store receives blobs only through blobserver.Receive (C02), any concrete fault schedule or restart. Not followed (reported Undecided, never silently passed): helpers called through interfaces or function values, a consumer whose receive loop is split over several functions with early exits, the queue enumerator or the reload function inlined into their callers (the enumerator protocol is defined on functions of the enumerator type).",
 		RuleDocs: map[string]string{
-			"Y-dequeue":    "enumerates every use of field SyncHandler.queue, every delete on SyncHandler.needCopy, every caller of the completion function and every may-be-nil error return of the copy function; guards by dominance (err==nil), value dependence (fetch -> tee(hash) -> buffer -> destination) and equality facts (acknowledged size == sent size)",
-			"Y-enqueue":    "enumerates builders of queue-backed handlers (hook registration on all paths, right hub, right method), returns of enqueue, callers of enqueue, hook invocations in BlobHub implementations and callers of NotifyBlobReceived",
-			"Y-reload":     "enumerates builders of queue-backed handlers (reload on all handler-returning paths, failure hands out nothing), the reload function (element flow, error flow) and the queue enumerator (full scan, rows skipped only on parse failure, Close error returned)",
-			"Y-start":      "every handler-returning path of a builder starts the copy loop (go syncLoop, or a go literal all of whose paths reach syncLoop)",
-			"Y-codec":      "writer/reader/deleter agreement on the queue row encoding",
+			"Y-dequeue":    "enumerates every use of field SyncHandler.queue (followed into helpers), every delete on SyncHandler.needCopy, every caller of each completion function (forwarding wrappers, *error forms and deferred literals resolved) and every may-be-nil error return of the copy function; guards by dominance (err==nil, carried across helper calls), value dependence across call frames (fetch -> tee(hash) -> buffer -> destination) and equality facts (acknowledged size == sent size)",
+			"Y-enqueue":    "enumerates builders of queue-backed handlers by role (hook registration on all paths, right hub, right method; helpers and wrapped/inlined constructors followed), the returns of the registered hook over its effective body, its callers, hook invocations in BlobHub implementations (also in a helper) and callers of NotifyBlobReceived (helper callers included)",
+			"Y-reload":     "enumerates builders of queue-backed handlers (reload on all handler-returning paths, failure hands out nothing), the reload function found by role (every received element added, error flow) and the queue enumerator (full scan, rows skipped only on parse failure — parser helper followed —, Close error returned)",
+			"Y-start":      "every handler-returning path of a builder starts the copy loop (go syncLoop, or go of a literal/function/method all of whose paths reach syncLoop, possibly inside a helper)",
+			"Y-codec":      "writer/reader/deleter agreement on the queue row encoding, each followed through helper parameters",
 			"Y-merge":      "ListMissingDestinationBlobs: close on every exit; source takes are sent unless matched; sends come from the source",
-			"Y-enum-close": "enumerates every call of an enumerator-typed value (type of runSync's enumSrc parameter) in pkg/server and the functions that can flow into it; each closes its output channel on all paths to all returns (the consumer receives until the channel is closed)",
-			"Y-stop":       "per consumer: every early exit of the receive loop that reaches the wait for the enumerator's result has closed the interrupt channel first (closures, sync.Once and sync.OnceFunc resolved; the consumer's own defers do not count); per enumerator of such a consumer: every send on the output channel is a select case next to a receive from the interrupt parameter",
+			"Y-enum-close": "enumerates every call of an enumerator-typed value (type found by role) in pkg/server and the functions that can flow into it; each closes its output channel on all paths to all returns (the consumer receives until the channel is closed)",
+			"Y-stop":       "per consumer (the maker of the element channel): every early exit of the receive loop that reaches the wait for the enumerator's result has closed the interrupt channel first (closures, sync.Once and sync.OnceFunc resolved; the consumer's own defers do not count); per enumerator of such a consumer: every send on the output channel is a select case next to a receive from the interrupt parameter",
 		},
 		Run:       runC19,
 		DesignRef: "DESIGN.md §4 C19",
-		Technique: "static analysis: dominance on err==nil edges, CFG all-paths exploration with failure assumption, value-dependence slices (fetch/hash/buffer/destination), equality-fact closure, who-may-use enumeration of a struct field, writer/reader table agreement, function-value resolution (method values, returned literals, caller arguments) and channel-protocol path exploration (close on all exits; interrupt closed before the wait on every early loop exit; sends paired with the interrupt in one select) — all over go/ssa of the current tree",
-		LevelText: "Decides structural necessary conditions only: a queue row is deleted only behind a verified, acknowledged copy; received blobs are enqueued persistently with errors propagated to the uploader; the queue is reloaded (and the copy loop started) before a handler is handed out; the source-minus-destination merge never drops an unmatched source element; two structural liveness conditions of the copy loop hold: every enumerator closes the channel its consumer ranges over, and a consumer that stops consuming early interrupts the (interruptible) enumerator before it waits for it, so neither start-up, the full sync nor the periodic queue sync can block for ever on that hand-shake. Does not decide liveness in general, timing, crash behaviour of the KV, or any dynamic schedule.",
+		Technique: "static analysis over go/ssa of the current tree: dominance on err==nil edges and CFG all-paths exploration with failure assumption, both carried across static same-package calls (effective bodies: call frames with parameter/argument and result/return mapping, success summaries of helpers = what precedes every may-be-nil return); value-dependence slices across frames (fetch/hash/buffer/destination); frozen-field resolution (fields only written when a fresh struct is initialised); equality-fact closure; who-may-use enumeration of a struct field; who-may-call closure (a helper is accepted when all its static callers are); writer/reader table agreement; function-value resolution (method values, returned literals, caller arguments) and channel-protocol path exploration (close on all exits; interrupt closed before the wait on every early loop exit; sends paired with the interrupt in one select)",
+		LevelText: "Decides structural necessary conditions only: a queue row is deleted only behind a verified, acknowledged copy; received blobs are enqueued persistently with errors propagated to the uploader; the queue is reloaded completely (and the copy loop started) before a handler is handed out; the source-minus-destination merge never drops an unmatched source element; two structural liveness conditions of the copy loop hold: every enumerator closes the channel its consumer ranges over, and a consumer that stops consuming early interrupts the (interruptible) enumerator before it waits for it. The conditions are stated on values, dominance and call structure, so extracting helpers, splitting functions, turning literals into methods, inlining single-caller helpers, defer<->explicit release and if<->switch reshaping do not change the verdict. Does not decide liveness in general, timing, crash behaviour of the KV, or any dynamic schedule.",
 	})
 }
 
@@ -51,21 +51,23 @@ type c19Anchors struct {
 	qDelete   []CallSite   // queue.Delete sites
 	ctors     []*ssa.Function
 	memAdd    *ssa.Function // stores into needCopy (addBlobToCopy)
-	reload    *ssa.Function // readQueueToMemory
 	syncLoop  *ssa.Function
 	sizedRef  *types.Named
 	recvIface *types.Interface
 	fetchIf   *types.Interface
+	x         *c19X           // effective-body machinery (frames, cross-frame values, events)
+	enqs      []*ssa.Function // the enqueue functions registered as receive hooks (by role)
+	queueSeen map[[2]any]bool // (helper, parameter index) pairs through which the queue value was already followed
 }
 
 func runC19(p *Program, r *Reporter) {
 	a := &c19Anchors{
 		sh:        p.NamedType("pkg/server", "SyncHandler"),
-		reload:    p.Func("pkg/server", "SyncHandler", "readQueueToMemory"),
 		syncLoop:  p.Func("pkg/server", "SyncHandler", "syncLoop"),
 		sizedRef:  p.NamedType("pkg/blob", "SizedRef"),
 		recvIface: p.Iface("pkg/blobserver", "BlobReceiver"),
 		fetchIf:   p.Iface("pkg/blob", "Fetcher"),
+		x:         newC19X(p),
 	}
 	for _, f := range []string{"queue", "from", "to", "needCopy"} {
 		if c19FieldIndex(a.sh, f) < 0 {
@@ -80,14 +82,17 @@ func runC19(p *Program, r *Reporter) {
 	c19YCodec(p, r, a)
 	c19YMerge(p, r)
 	c19YEnumProtocol(p, r)
-	r.Floor("Y-dequeue", 11)
-	r.Floor("Y-enqueue", 11)
-	r.Floor("Y-reload", 7)
-	r.Floor("Y-start", 2)
+	// floors are lower bounds against vacuous passes; they sit a little below today's
+	// counts (11/11/7/2/3/6/5/5) because behaviour-preserving refactorings may merge
+	// two obligations into one (a shared helper) or drop a table-only one
+	r.Floor("Y-dequeue", 10)
+	r.Floor("Y-enqueue", 9)
+	r.Floor("Y-reload", 6)
+	r.Floor("Y-start", 1)
 	r.Floor("Y-codec", 3)
-	r.Floor("Y-merge", 6)
-	r.Floor("Y-enum-close", 5)
-	r.Floor("Y-stop", 5)
+	r.Floor("Y-merge", 5)
+	r.Floor("Y-enum-close", 4)
+	r.Floor("Y-stop", 4)
 }
 
 // ---------------------------------------------------------------------------
@@ -276,11 +281,880 @@ func c19StableParam(fn *ssa.Function, prm *ssa.Parameter) bool {
 	return true
 }
 
-// c19Path is AccessPath after resolving single-store locals.
-func c19Path(v ssa.Value) string { return AccessPath(originValue(v)) }
-
 func c19InServer(fn *ssa.Function) bool {
 	return fn != nil && fn.Pkg != nil && RelPkg(fn.Pkg.Pkg) == "pkg/server"
+}
+
+// ---------------------------------------------------------------------------
+// effective bodies
+//
+// A rule that looks for a site "in function F" looks in F's effective body: F
+// plus, transitively, the same-package functions, methods and function literals
+// that F calls statically (helper extraction, function splitting and
+// closure->method refactorings move code there without changing behaviour). A
+// c19Frame is one such call context; values are followed across frames
+// (parameter -> argument at the call, result of the call -> the values the
+// helper returns), and ordering facts are carried across the call: a call of
+// helper H counts as "performed P successfully" at a point behind the call on
+// the edge where H's error result is nil (or when H's own error is what is
+// returned there) if P succeeded before every return of H that may report
+// success.
+
+const c19MaxDepth = 5
+
+type c19Frame struct {
+	callee *ssa.Function
+	call   CallSite // the call in the frame above (zero for a root frame)
+	up     *c19Frame
+	depth  int
+	id     int
+}
+
+type c19FrameKey struct {
+	up *c19Frame
+	in ssa.Instruction
+	fn *ssa.Function
+}
+
+type c19InsideKey struct {
+	fr      *c19Frame
+	success bool
+}
+
+type c19X struct {
+	p      *Program
+	frames map[c19FrameKey]*c19Frame
+	inside map[c19InsideKey]*c19Held
+	// fieldW: struct fields that are written, or whose address escapes, anywhere
+	// other than as the initialisation of a freshly allocated struct
+	fieldW map[*types.Var]bool
+}
+
+func newC19X(p *Program) *c19X {
+	return &c19X{p: p, frames: map[c19FrameKey]*c19Frame{}, inside: map[c19InsideKey]*c19Held{}}
+}
+
+func (x *c19X) root(fn *ssa.Function) *c19Frame {
+	k := c19FrameKey{fn: fn}
+	if f := x.frames[k]; f != nil {
+		return f
+	}
+	f := &c19Frame{callee: fn, id: len(x.frames)}
+	x.frames[k] = f
+	return f
+}
+
+// helper returns the callee of c when c is a plain (not go/defer) static call
+// of a function, method or function literal of the frame's own package whose
+// body is available.
+func (x *c19X) helper(c CallSite, fr *c19Frame) *ssa.Function {
+	if c.Value() == nil {
+		return nil
+	}
+	if _, isBuiltin := c.Common().Value.(*ssa.Builtin); isBuiltin {
+		return nil
+	}
+	g := c.Callee()
+	if g == nil || g.Blocks == nil || g.Synthetic != "" || g.Pkg == nil || fr == nil || g.Pkg != fr.callee.Pkg {
+		return nil
+	}
+	return g
+}
+
+// push enters helper g through call c (nil when the chain gets too deep or recursive).
+func (x *c19X) push(fr *c19Frame, c CallSite, g *ssa.Function) *c19Frame {
+	if fr == nil || g == nil || fr.depth >= c19MaxDepth {
+		return nil
+	}
+	for f := fr; f != nil; f = f.up {
+		if f.callee == g {
+			return nil
+		}
+	}
+	k := c19FrameKey{up: fr, in: c.Instr}
+	if f := x.frames[k]; f != nil {
+		return f
+	}
+	f := &c19Frame{callee: g, call: c, up: fr, depth: fr.depth + 1, id: len(x.frames)}
+	x.frames[k] = f
+	return f
+}
+
+// enter is helper+push.
+func (x *c19X) enter(c CallSite, fr *c19Frame) *c19Frame {
+	if g := x.helper(c, fr); g != nil {
+		return x.push(fr, c, g)
+	}
+	return nil
+}
+
+// frameFor returns the frame value v lives in: fr itself, or the enclosing
+// frame whose function declares v (a literal called as a helper reads the
+// variables of the function that declares it).
+func (x *c19X) frameFor(v ssa.Value, fr *c19Frame) *c19Frame {
+	fn := c19FuncOfValue(v)
+	if fv, ok := v.(*ssa.FreeVar); ok {
+		fn = fv.Parent()
+	}
+	if fn == nil || fr == nil || fn == fr.callee {
+		return fr
+	}
+	for f := fr.up; f != nil; f = f.up {
+		if f.callee == fn {
+			return f
+		}
+	}
+	return fr
+}
+
+func c19ArgOf(fr *c19Frame, prm *ssa.Parameter) ssa.Value {
+	if fr == nil || fr.up == nil || prm.Parent() != fr.callee {
+		return nil
+	}
+	args := fr.call.Args()
+	for i, q := range fr.callee.Params {
+		if q == prm && i < len(args) {
+			return args[i]
+		}
+	}
+	return nil
+}
+
+// origin is originValue across frames: a helper's parameter stands for the
+// caller's argument, the result of a helper call for the value the helper
+// returns (when all its returns yield the same one).
+func (x *c19X) origin(v ssa.Value, fr *c19Frame) (ssa.Value, *c19Frame) {
+	for i := 0; i < 48 && v != nil; i++ {
+		v = originValue(v)
+		fr = x.frameFor(v, fr)
+		switch t := v.(type) {
+		case *ssa.Parameter:
+			if arg := c19ArgOf(fr, t); arg != nil {
+				v, fr = arg, fr.up
+				continue
+			}
+			return v, fr
+		case *ssa.UnOp:
+			// a struct variable whose fields are read through its address (originValue
+			// gives up on those): assigned once as a whole, never written field by field
+			if t.Op == token.MUL {
+				if cell, ok := varOf(t.X); ok {
+					if al, ok := cell.(*ssa.Alloc); ok {
+						if sts := storesTo(al); len(sts) == 1 && c19AssignedOnce(al, 0) {
+							v = sts[0].Val
+							continue
+						}
+					}
+				}
+			}
+			return v, fr
+		case *ssa.Call:
+			if t.Call.Signature().Results().Len() == 1 {
+				if rv, rf, ok := x.resultOrigin(t, 0, fr); ok {
+					v, fr = rv, rf
+					continue
+				}
+			}
+			return v, fr
+		case *ssa.Extract:
+			if call, ok := t.Tuple.(*ssa.Call); ok {
+				if rv, rf, ok := x.resultOrigin(call, t.Index, fr); ok {
+					v, fr = rv, rf
+					continue
+				}
+			}
+			return v, fr
+		default:
+			return v, fr
+		}
+	}
+	return v, fr
+}
+
+func (x *c19X) resultOrigin(call *ssa.Call, idx int, fr *c19Frame) (ssa.Value, *c19Frame, bool) {
+	nf := x.enter(CallSite{call.Parent(), call}, fr)
+	if nf == nil {
+		return nil, nil, false
+	}
+	var rv ssa.Value
+	var rf *c19Frame
+	for _, ri := range Returns(nf.callee) {
+		if idx >= len(ri.Results) {
+			return nil, nil, false
+		}
+		v, f := x.origin(ri.Results[idx], nf)
+		if rv != nil && (rv != v || rf != f) {
+			return nil, nil, false
+		}
+		rv, rf = v, f
+	}
+	return rv, rf, rv != nil
+}
+
+func (x *c19X) same(v ssa.Value, fr *c19Frame, w ssa.Value, wf *c19Frame) bool {
+	if v == nil || w == nil {
+		return false
+	}
+	a, af := x.origin(v, fr)
+	b, bf := x.origin(w, wf)
+	return a == b && af == bf
+}
+
+func c19Deref(t types.Type) types.Type {
+	if pt, ok := t.Underlying().(*types.Pointer); ok {
+		return pt.Elem()
+	}
+	return t
+}
+
+func c19FieldVar(fa *ssa.FieldAddr) *types.Var {
+	st, ok := c19Deref(fa.X.Type()).Underlying().(*types.Struct)
+	if !ok || fa.Field >= st.NumFields() {
+		return nil
+	}
+	return st.Field(fa.Field)
+}
+
+// c19AddrWritten: something is stored through addr (or through the address of a
+// part of it), or addr is used other than by loads and stores.
+func c19AddrWritten(addr ssa.Value, depth int) bool {
+	refs := addr.Referrers()
+	if refs == nil {
+		return false
+	}
+	for _, u := range *refs {
+		switch u := u.(type) {
+		case *ssa.DebugRef:
+		case *ssa.UnOp:
+			if u.Op != token.MUL {
+				return true
+			}
+		case *ssa.Store:
+			return true // stored through, or the address itself is stored
+		case *ssa.FieldAddr:
+			if depth > 6 || c19AddrWritten(u, depth+1) {
+				return true
+			}
+		case *ssa.IndexAddr:
+			if depth > 6 || c19AddrWritten(u, depth+1) {
+				return true
+			}
+		default:
+			return true
+		}
+	}
+	return false
+}
+
+// c19AssignedOnce: the struct variable behind addr (an Alloc, or the FreeVar a
+// literal sees it through) is written only by whole-variable stores (counted by
+// the caller with storesTo): its address is otherwise only loaded, captured, or
+// used to read fields.
+func c19AssignedOnce(addr ssa.Value, depth int) bool {
+	refs := addr.Referrers()
+	if refs == nil {
+		return true
+	}
+	for _, u := range *refs {
+		switch u := u.(type) {
+		case *ssa.DebugRef:
+		case *ssa.UnOp:
+			if u.Op != token.MUL {
+				return false
+			}
+		case *ssa.Store:
+			if u.Addr != addr {
+				return false
+			}
+		case *ssa.FieldAddr:
+			if c19AddrWritten(u, 0) {
+				return false
+			}
+		case *ssa.IndexAddr:
+			if c19AddrWritten(u, 0) {
+				return false
+			}
+		case *ssa.MakeClosure:
+			fn, _ := u.Fn.(*ssa.Function)
+			if fn == nil || depth > 6 {
+				return false
+			}
+			for i, b := range u.Bindings {
+				if b == addr && i < len(fn.FreeVars) && !c19AssignedOnce(fn.FreeVars[i], depth+1) {
+					return false
+				}
+			}
+		default:
+			return false
+		}
+	}
+	return true
+}
+
+// fieldsWritten computes, once, the struct fields of the module that are not
+// frozen after the initialisation of the struct they belong to.
+func (x *c19X) fieldsWritten() map[*types.Var]bool {
+	if x.fieldW != nil {
+		return x.fieldW
+	}
+	w := map[*types.Var]bool{}
+	markAll := func(t types.Type) {
+		if st, ok := t.Underlying().(*types.Struct); ok {
+			for i := 0; i < st.NumFields(); i++ {
+				w[st.Field(i)] = true
+			}
+		}
+	}
+	for _, fn := range x.p.AllFuncs {
+		for _, b := range fn.Blocks {
+			for _, in := range b.Instrs {
+				switch t := in.(type) {
+				case *ssa.FieldAddr:
+					fv := c19FieldVar(t)
+					if fv == nil || w[fv] {
+						continue
+					}
+					_, fresh := t.X.(*ssa.Alloc)
+					refs := t.Referrers()
+					if refs == nil {
+						continue
+					}
+					for _, u := range *refs {
+						switch u := u.(type) {
+						case *ssa.DebugRef:
+						case *ssa.UnOp:
+							if u.Op != token.MUL {
+								w[fv] = true
+							}
+						case *ssa.Store:
+							if u.Addr != ssa.Value(t) || !fresh {
+								w[fv] = true
+							}
+						case *ssa.FieldAddr:
+							if c19AddrWritten(u, 0) {
+								w[fv] = true
+							}
+						case *ssa.IndexAddr:
+							if c19AddrWritten(u, 0) {
+								w[fv] = true
+							}
+						default:
+							w[fv] = true
+						}
+					}
+				case *ssa.Store:
+					// a struct overwritten as a whole through a pointer
+					if _, fresh := t.Addr.(*ssa.Alloc); !fresh {
+						markAll(t.Val.Type())
+					}
+				}
+			}
+		}
+	}
+	x.fieldW = w
+	return w
+}
+
+// fieldInit resolves a read of field f of a struct that was allocated by the
+// code under analysis: when f is frozen (never written after initialisation
+// anywhere in the module) and the allocation site initialises it exactly once,
+// the read yields the initialising value.
+func (x *c19X) fieldInit(fa *ssa.FieldAddr, fr *c19Frame) (ssa.Value, *c19Frame, bool) {
+	base, bf := x.origin(fa.X, fr)
+	if cell, ok := varOf(base); ok && cell != base {
+		base, bf = cell, x.frameFor(cell, bf) // a literal reads the struct variable of the function that declares it
+	}
+	al, ok := base.(*ssa.Alloc)
+	if !ok {
+		return nil, nil, false
+	}
+	fv := c19FieldVar(fa)
+	if fv == nil || x.fieldsWritten()[fv] {
+		return nil, nil, false
+	}
+	if len(storesTo(al)) != 0 {
+		return nil, nil, false // the struct variable is (re)assigned as a whole
+	}
+	var init *ssa.Store
+	refs := al.Referrers()
+	if refs == nil {
+		return nil, nil, false
+	}
+	for _, u := range *refs {
+		f2, ok := u.(*ssa.FieldAddr)
+		if !ok || f2.Field != fa.Field {
+			continue
+		}
+		if fr2 := f2.Referrers(); fr2 != nil {
+			for _, s := range *fr2 {
+				if st, ok := s.(*ssa.Store); ok && st.Addr == ssa.Value(f2) {
+					if init != nil {
+						return nil, nil, false
+					}
+					init = st
+				}
+			}
+		}
+	}
+	if init == nil {
+		return nil, nil, false
+	}
+	return init.Val, bf, true
+}
+
+func (x *c19X) unique(v ssa.Value, fr *c19Frame) string {
+	if v == nil {
+		return "?nil"
+	}
+	id := -1
+	if fr != nil {
+		id = fr.id
+	}
+	return fmt.Sprintf("?%s@%p/%d", v.Name(), v, id)
+}
+
+// path renders a value as an access path rooted at a parameter of the ROOT
+// function ("sb.Ref"); values that are not such a path render as a string that
+// is unique to the (value, frame) pair. Equal paths denote the same run-time
+// value as long as the root parameter is never reassigned (c19StableParam) and
+// the fields passed are frozen (fieldInit) or not written by the code between
+// the two reads (as before for sh.from / sh.to).
+func (x *c19X) path(v ssa.Value, fr *c19Frame) string { return x.pathD(v, fr, 0) }
+
+func (x *c19X) pathD(v ssa.Value, fr *c19Frame, d int) string {
+	if v == nil || d > 24 {
+		return x.unique(v, fr)
+	}
+	v, fr = x.origin(v, fr)
+	switch t := v.(type) {
+	case *ssa.Parameter:
+		if fr != nil && fr.up == nil && t.Parent() == fr.callee {
+			return t.Name()
+		}
+	case *ssa.Field:
+		return x.pathD(t.X, fr, d+1) + "." + fieldName(t.X.Type(), t.Field)
+	case *ssa.UnOp:
+		if t.Op == token.MUL {
+			switch ad := t.X.(type) {
+			case *ssa.FieldAddr:
+				return x.fieldPlace(ad, fr, d+1)
+			case *ssa.Global:
+				return "global:" + RelPkg(ad.Pkg.Pkg) + "." + ad.Name()
+			}
+		}
+	case *ssa.Const:
+		return "const:" + t.String()
+	}
+	return x.unique(v, fr)
+}
+
+// fieldPlace: the path of the place &X.f denotes.
+func (x *c19X) fieldPlace(fa *ssa.FieldAddr, fr *c19Frame, d int) string {
+	if rv, rf, ok := x.fieldInit(fa, fr); ok {
+		return x.pathD(rv, rf, d+1)
+	}
+	name := fieldName(fa.X.Type(), fa.Field)
+	base, bf := x.origin(fa.X, fr)
+	if cell, ok := varOf(base); ok && cell != base {
+		base, bf = cell, x.frameFor(cell, bf)
+	}
+	switch b := base.(type) {
+	case *ssa.FieldAddr:
+		return x.fieldPlace(b, bf, d+1) + "." + name
+	case *ssa.Alloc:
+		// a local struct variable: its value when assigned once as a whole and never field by field
+		sts := storesTo(b)
+		if len(sts) == 1 && c19AssignedOnce(b, 0) {
+			return x.pathD(sts[0].Val, x.frameFor(sts[0].Val, bf), d+1) + "." + name
+		}
+		return x.unique(b, bf) + "." + name
+	}
+	return x.pathD(base, bf, d+1) + "." + name
+}
+
+// fieldOf is c19FieldOf across frames.
+func (x *c19X) fieldOf(v ssa.Value, fr *c19Frame, n *types.Named, field string) (ssa.Value, bool) {
+	o, _ := x.origin(v, fr)
+	return c19FieldOf(o, n, field)
+}
+
+// flows is c19Flows across frames: may v (in frame fr) be computed from a value
+// satisfying target? A helper's parameter continues at the caller's argument, a
+// helper call's result at the values the helper returns.
+func (x *c19X) flows(v ssa.Value, fr *c19Frame, target func(ssa.Value, *c19Frame) bool) bool {
+	type key struct {
+		v  ssa.Value
+		fr *c19Frame
+	}
+	seen := map[key]bool{}
+	var walk func(v ssa.Value, fr *c19Frame, d int) bool
+	walk = func(v ssa.Value, fr *c19Frame, d int) bool {
+		if v == nil || d > 120 {
+			return false
+		}
+		fr = x.frameFor(v, fr)
+		k := key{v, fr}
+		if seen[k] {
+			return false
+		}
+		seen[k] = true
+		if target(v, fr) {
+			return true
+		}
+		results := func(call *ssa.Call, idx int) (bool, bool) {
+			nf := x.enter(CallSite{call.Parent(), call}, fr)
+			if nf == nil {
+				return false, false
+			}
+			for _, ri := range Returns(nf.callee) {
+				for i, res := range ri.Results {
+					if (idx < 0 || i == idx) && walk(res, nf, d+1) {
+						return true, true
+					}
+				}
+			}
+			return true, false
+		}
+		switch t := v.(type) {
+		case *ssa.Parameter:
+			if arg := c19ArgOf(fr, t); arg != nil {
+				return walk(arg, fr.up, d+1)
+			}
+			return false
+		case *ssa.UnOp:
+			if t.Op == token.MUL {
+				if cell, ok := varOf(t.X); ok && walk(cell, fr, d+1) {
+					return true
+				}
+			}
+		case *ssa.FreeVar:
+			if b := bindingOf(t); b != nil && walk(b, fr, d+1) {
+				return true
+			}
+		case *ssa.Alloc:
+			if refs := t.Referrers(); refs != nil {
+				for _, u := range *refs {
+					switch u := u.(type) {
+					case *ssa.Store:
+						if u.Addr == ssa.Value(t) && walk(u.Val, fr, d+1) {
+							return true
+						}
+					case *ssa.FieldAddr, *ssa.IndexAddr:
+						if rr := u.(ssa.Value).Referrers(); rr != nil {
+							for _, s := range *rr {
+								if st, ok := s.(*ssa.Store); ok && st.Addr == u.(ssa.Value) && walk(st.Val, fr, d+1) {
+									return true
+								}
+							}
+						}
+					}
+				}
+			}
+			for _, st := range storesTo(t) {
+				if walk(st.Val, fr, d+1) {
+					return true
+				}
+			}
+		case *ssa.Call:
+			if isHelper, found := results(t, -1); isHelper {
+				return found
+			}
+		case *ssa.Extract:
+			if call, ok := t.Tuple.(*ssa.Call); ok {
+				if isHelper, found := results(call, t.Index); isHelper {
+					return found
+				}
+			}
+		}
+		if in, ok := v.(ssa.Instruction); ok {
+			for _, op := range in.Operands(nil) {
+				if *op != nil && walk(*op, fr, d+1) {
+					return true
+				}
+			}
+		}
+		return false
+	}
+	return walk(v, fr, 0)
+}
+
+func (x *c19X) flowsFrom(v ssa.Value, fr *c19Frame, src ssa.Value, sf *c19Frame) bool {
+	so, sof := x.origin(src, sf)
+	return x.flows(v, fr, func(y ssa.Value, yf *c19Frame) bool {
+		if y == src && yf == sf {
+			return true
+		}
+		o, of := x.origin(y, yf)
+		return o == so && of == sof
+	})
+}
+
+// events and facts that hold at a point
+
+type c19Ev struct {
+	c  CallSite
+	fr *c19Frame
+}
+
+type c19Fact struct {
+	cond ssa.Value
+	val  bool
+	fr   *c19Frame
+}
+
+type c19Held struct {
+	evs   []c19Ev
+	facts []c19Fact
+}
+
+// A c19Point is an instruction of a frame; val, when set, is the error value
+// whose being nil defines "success" at the point (the operand of the return).
+type c19Point struct {
+	fr  *c19Frame
+	at  ssa.Instruction
+	val ssa.Value
+}
+
+// done: has call c (of the point's function) completed before the point — when
+// success is set: successfully, i.e. the point is on the err==nil edge of c, or
+// c's own error is the value whose being nil defines success at the point?
+func c19Done(call *ssa.Call, pt c19Point, success bool) bool {
+	if !success {
+		return Precedes(call, pt.at)
+	}
+	if ok, _ := SuccessDominates(call, pt.at); ok {
+		return true
+	}
+	if c19SuccessDominatesViaCell(call, pt.at) {
+		return true
+	}
+	if pt.val != nil && Precedes(call, pt.at) {
+		if ev, has, discarded := ErrValue(call); has && !discarded && ev != nil && sameOrigin(pt.val, ev) {
+			return true
+		}
+	}
+	return false
+}
+
+// c19OnlyDeferEscapes: the address of local variable al is used only by loads,
+// stores to it, closure captures and as an argument of defer statements (the
+// deferred call runs after the function's body: it cannot change what the body
+// reads).
+func c19OnlyDeferEscapes(al *ssa.Alloc) bool {
+	refs := al.Referrers()
+	if refs == nil {
+		return true
+	}
+	for _, u := range *refs {
+		switch u := u.(type) {
+		case *ssa.DebugRef, *ssa.MakeClosure:
+		case *ssa.UnOp:
+			if u.Op != token.MUL {
+				return false
+			}
+		case *ssa.Store:
+			if u.Addr != ssa.Value(al) {
+				return false
+			}
+		case *ssa.Defer:
+			if u.Call.Value == ssa.Value(al) {
+				return false
+			}
+		default:
+			return false
+		}
+	}
+	return true
+}
+
+// c19SuccessDominatesViaCell is SuccessDominates for an error that is kept in a
+// variable whose address is handed to a deferred call (`defer cs.finish(&err)`):
+// the shared helpers do not resolve loads of such a variable; the store that
+// reaches the load of the dominating `err != nil` test is looked up instead.
+func c19SuccessDominatesViaCell(call *ssa.Call, at ssa.Instruction) bool {
+	if !Precedes(call, at) {
+		return false
+	}
+	ev, has, discarded := ErrValue(call)
+	if !has || discarded || ev == nil {
+		return false
+	}
+	for _, f := range FactsAt(at.Block()) {
+		cond, val := f.Cond, f.Val
+		for {
+			if u, ok := cond.(*ssa.UnOp); ok && u.Op == token.NOT {
+				cond, val = u.X, !val
+				continue
+			}
+			break
+		}
+		bo, ok := cond.(*ssa.BinOp)
+		if !ok || (bo.Op != token.EQL && bo.Op != token.NEQ) {
+			continue
+		}
+		other := bo.X
+		if IsNilConst(bo.X) {
+			other = bo.Y
+		} else if !IsNilConst(bo.Y) {
+			continue
+		}
+		if (bo.Op == token.EQL) != val {
+			continue // the fact says non-nil
+		}
+		ld, ok := other.(*ssa.UnOp)
+		if !ok || ld.Op != token.MUL {
+			continue
+		}
+		al, ok := ld.X.(*ssa.Alloc)
+		if !ok || al.Parent() != at.Parent() || !c19OnlyDeferEscapes(al) {
+			continue
+		}
+		inFn := true
+		for _, st := range storesTo(al) {
+			if st.Parent() != al.Parent() {
+				inFn = false
+			}
+		}
+		if !inFn {
+			continue
+		}
+		if st := reachingStore(al, ld); st != nil && sameOrigin(st.Val, ev) {
+			return true
+		}
+	}
+	return false
+}
+
+// local: the calls of the point's own function completed before the point
+// (with what their helpers guarantee), and the branch facts dominating it.
+func (x *c19X) local(pt c19Point, success bool) *c19Held {
+	h := &c19Held{}
+	fn := pt.at.Parent()
+	for _, c := range CallsIn(fn, false) {
+		call := c.Value()
+		if call == nil || !c19Done(call, pt, success) {
+			continue
+		}
+		h.evs = append(h.evs, c19Ev{c, pt.fr})
+		if nf := x.enter(c, pt.fr); nf != nil {
+			in := x.insideOf(nf, success)
+			h.evs = append(h.evs, in.evs...)
+			h.facts = append(h.facts, in.facts...)
+		}
+	}
+	for _, f := range FactsAt(pt.at.Block()) {
+		h.facts = append(h.facts, c19Fact{f.Cond, f.Val, pt.fr})
+	}
+	return h
+}
+
+// c19ExitPoints: the returns of fn that may report success (all returns when fn
+// has no error result or success is not asked for).
+func c19ExitPoints(fr *c19Frame, success bool) []c19Point {
+	fn := fr.callee
+	var pts []c19Point
+	if success && ErrResultIndex(fn) >= 0 {
+		for _, nr := range MaybeNilErrorReturns(fn) {
+			at := ssa.Instruction(nr.Ret)
+			if nr.From != nil && nr.From != nr.Ret.Block() {
+				at = c19LastInstr(nr.From)
+			}
+			pts = append(pts, c19Point{fr, at, nr.Val})
+		}
+		return pts
+	}
+	for _, ri := range Returns(fn) {
+		pts = append(pts, c19Point{fr, ri.Ret, nil})
+	}
+	return pts
+}
+
+// insideOf: what holds at EVERY (successful) return of the helper of frame nf.
+func (x *c19X) insideOf(nf *c19Frame, success bool) *c19Held {
+	k := c19InsideKey{nf, success}
+	if h, ok := x.inside[k]; ok {
+		return h
+	}
+	x.inside[k] = &c19Held{} // recursion guard
+	pts := c19ExitPoints(nf, success)
+	out := &c19Held{}
+	if len(pts) > 0 {
+		type ek struct {
+			in ssa.Instruction
+			fr *c19Frame
+		}
+		type fk struct {
+			cond ssa.Value
+			val  bool
+			fr   *c19Frame
+		}
+		evn := map[ek]int{}
+		fan := map[fk]int{}
+		var first *c19Held
+		for i, pt := range pts {
+			h := x.local(pt, success)
+			if i == 0 {
+				first = h
+			}
+			seenE := map[ek]bool{}
+			for _, e := range h.evs {
+				k := ek{e.c.Instr, e.fr}
+				if !seenE[k] {
+					seenE[k] = true
+					evn[k]++
+				}
+			}
+			seenF := map[fk]bool{}
+			for _, f := range h.facts {
+				k := fk{f.cond, f.val, f.fr}
+				if !seenF[k] {
+					seenF[k] = true
+					fan[k]++
+				}
+			}
+		}
+		for _, e := range first.evs {
+			if evn[ek{e.c.Instr, e.fr}] == len(pts) {
+				out.evs = append(out.evs, e)
+			}
+		}
+		for _, f := range first.facts {
+			if fan[fk{f.cond, f.val, f.fr}] == len(pts) {
+				out.facts = append(out.facts, f)
+			}
+		}
+	}
+	x.inside[k] = out
+	return out
+}
+
+// held: everything known to have completed (successfully) before the point,
+// and every branch fact known there, in the effective body of the root: the
+// point's own function, the helpers it called, and the callers above it up to
+// the call that entered the frame.
+func (x *c19X) held(pt c19Point, success bool) *c19Held {
+	out := &c19Held{}
+	for {
+		h := x.local(pt, success)
+		out.evs = append(out.evs, h.evs...)
+		out.facts = append(out.facts, h.facts...)
+		if pt.fr == nil || pt.fr.up == nil {
+			return out
+		}
+		pt = c19Point{pt.fr.up, pt.fr.call.Instr, nil}
+	}
+}
+
+// effectiveCalls visits every call of the effective body of the frame's
+// function, whether or not it dominates anything (for diagnostics and for
+// enumerations that are not about order).
+func (x *c19X) effectiveCalls(fr *c19Frame, visit func(c CallSite, fr *c19Frame)) {
+	for _, c := range CallsIn(fr.callee, false) {
+		visit(c, fr)
+		if nf := x.enter(c, fr); nf != nil {
+			x.effectiveCalls(nf, visit)
+		}
+	}
 }
 
 // ---------------------------------------------------------------------------
@@ -363,6 +1237,29 @@ func c19ClassifyQueueValue(p *Program, r *Reporter, a *c19Anchors, fn *ssa.Funct
 			}
 			continue
 		}
+		// handed to a same-package helper (plain call, go or defer): its uses of the parameter are classified instead
+		if ok && !ci.Common().IsInvoke() {
+			c := CallSite{fn, ci}
+			if g := c.Callee(); g != nil && g.Blocks != nil && g.Synthetic == "" && g.Pkg == fn.Pkg {
+				followed := false
+				for i, arg := range c.Args() {
+					if arg == v && i < len(g.Params) {
+						followed = true
+						k := [2]any{g, i}
+						if a.queueSeen == nil {
+							a.queueSeen = map[[2]any]bool{}
+						}
+						if !a.queueSeen[k] {
+							a.queueSeen[k] = true
+							c19ClassifyQueueValue(p, r, a, g, g.Params[i])
+						}
+					}
+				}
+				if followed {
+					continue
+				}
+			}
+		}
 		r.Undecided("Y-dequeue", FuncKey(fn)+"#queue-escapes", p.Pos(u.Pos()), "the queue value flows somewhere other than a direct method call (passed, stored, asserted); its users can no longer be enumerated")
 	}
 }
@@ -372,11 +1269,60 @@ func c19ClassifyQueueValue(p *Program, r *Reporter, a *c19Anchors, fn *ssa.Funct
 
 // c19Guard finds, for an instruction inside fn, an error parameter of fn known
 // nil at the instruction. When fn has none, the guard is looked for at every
-// static caller of fn (bound 2). It returns the completion functions (function
-// + index of the guarding error parameter).
+// static caller of fn (bound 4: a helper all of whose callers hold the guard is
+// entered with the guard). It returns the completion functions (function +
+// index of the guarding error parameter). A site in a literal deferred by F,
+// under the fact that F's own error result (read when the literal runs) is nil,
+// makes that literal the completion (idx -1).
 type c19Completion struct {
 	fn  *ssa.Function
-	idx int // index into fn.Params
+	idx int  // index into fn.Params; -1: fn is a deferred literal reading its parent's error result
+	ptr bool // the parameter is a *error that is only read: the outcome is *param when fn runs
+}
+
+func c19DeferredBy(F, L *ssa.Function) bool {
+	for _, d := range DeferredCalls(F) {
+		if ClosureOf(d) == L {
+			return true
+		}
+	}
+	return false
+}
+
+// c19CellNilFact: is the block under the fact that variable cell (read at that
+// moment) is nil?
+func c19CellNilFact(b *ssa.BasicBlock, cell ssa.Value) bool {
+	for _, f := range FactsAt(b) {
+		cond, val := f.Cond, f.Val
+		for {
+			if u, ok := cond.(*ssa.UnOp); ok && u.Op == token.NOT {
+				cond, val = u.X, !val
+				continue
+			}
+			break
+		}
+		bo, ok := cond.(*ssa.BinOp)
+		if !ok || (bo.Op != token.EQL && bo.Op != token.NEQ) {
+			continue
+		}
+		other := bo.X
+		if IsNilConst(bo.X) {
+			other = bo.Y
+		} else if !IsNilConst(bo.Y) {
+			continue
+		}
+		ld, ok := other.(*ssa.UnOp)
+		if !ok || ld.Op != token.MUL {
+			continue
+		}
+		if cv, ok := varOf(ld.X); (!ok || cv != cell) && originValue(ld.X) != cell {
+			continue
+		}
+		if (bo.Op == token.EQL) == val {
+			return true
+		}
+	}
+	return false
 }
 
 func c19Guard(p *Program, in ssa.Instruction, depth int) (comps []c19Completion, why string) {
@@ -386,26 +1332,38 @@ func c19Guard(p *Program, in ssa.Instruction, depth int) (comps []c19Completion,
 			continue
 		}
 		if k, isNil := NilFact(in.Block(), prm); k && isNil {
-			return []c19Completion{{fn, i}}, ""
+			return []c19Completion{{fn: fn, idx: i}}, ""
 		}
 	}
-	// a literal sees its parent's parameters
-	if fn.Parent() != nil {
-		return nil, "site is in a function literal and not under an err==nil fact of an error parameter"
+	// *error parameter that is only read
+	for i, prm := range fn.Params {
+		if c19IsErrPtrParam(prm) && c19CellNilFact(in.Block(), prm) {
+			return []c19Completion{{fn: fn, idx: i, ptr: true}}, ""
+		}
+	}
+	// a literal deferred by the copy function, reading that function's error result
+	if F := fn.Parent(); F != nil {
+		if cell := c19ResultCell(F); cell != nil && c19DeferredBy(F, fn) && c19CellNilFact(in.Block(), cell) {
+			return []c19Completion{{fn: fn, idx: -1}}, ""
+		}
+		return nil, "site is in a function literal and not under an err==nil fact of an error parameter (or of the deferring function's error result)"
 	}
 	for _, prm := range fn.Params {
 		if isErrorType(prm.Type()) {
 			return nil, fmt.Sprintf("not dominated by the fact %s == nil", prm.Name())
 		}
 	}
-	if depth >= 2 {
-		return nil, "no err==nil guard found within two call levels"
+	if depth >= 4 {
+		return nil, "no err==nil guard found within four call levels"
 	}
 	callers := p.StaticCallers(fn)
 	if len(callers) == 0 || len(p.FuncValueUses(fn)) > 0 || len(p.InvokeSites(fn)) > 0 {
 		return nil, "enclosing function has no error parameter and its callers cannot be enumerated"
 	}
 	for _, c := range callers {
+		if c.Value() == nil {
+			return nil, "via caller " + FuncKey(c.Fn) + ": called with go/defer, the guard at the call says nothing about the moment it runs"
+		}
 		cs, w := c19Guard(p, c.Instr, depth+1)
 		if w != "" {
 			return nil, "via caller " + FuncKey(c.Fn) + ": " + w
@@ -413,6 +1371,30 @@ func c19Guard(p *Program, in ssa.Instruction, depth int) (comps []c19Completion,
 		comps = append(comps, cs...)
 	}
 	return comps, ""
+}
+
+// c19IsErrPtrParam: a parameter of type *error that the function only loads.
+func c19IsErrPtrParam(prm *ssa.Parameter) bool {
+	pt, ok := prm.Type().(*types.Pointer)
+	if !ok || !isErrorType(pt.Elem()) {
+		return false
+	}
+	refs := prm.Referrers()
+	if refs == nil {
+		return false
+	}
+	for _, u := range *refs {
+		switch u := u.(type) {
+		case *ssa.DebugRef:
+		case *ssa.UnOp:
+			if u.Op != token.MUL {
+				return false
+			}
+		default:
+			return false
+		}
+	}
+	return true
 }
 
 func c19YDequeue(p *Program, r *Reporter, a *c19Anchors) {
@@ -431,6 +1413,10 @@ func c19YDequeue(p *Program, r *Reporter, a *c19Anchors) {
 	}
 	for _, d := range a.qDelete {
 		construct := FuncKey(d.Fn) + "#queue.Delete#guard"
+		if d.Value() == nil {
+			r.Violation("Y-dequeue", construct, p.Pos(d.Pos()), "queue row deleted by a go/defer statement: the guard at the statement says nothing about the moment it runs")
+			continue
+		}
 		cs, why := c19Guard(p, d.Instr, 0)
 		if why != "" {
 			r.Violation("Y-dequeue", construct, p.Pos(d.Pos()), "queue row deleted where the copy's error is not known nil: "+why)
@@ -452,6 +1438,10 @@ func c19YDequeue(p *Program, r *Reporter, a *c19Anchors) {
 			}
 			nDel++
 			construct := FuncKey(fn) + "#delete(needCopy)#guard"
+			if c.Value() == nil {
+				r.Violation("Y-dequeue", construct, p.Pos(c.Pos()), "blob dropped from the in-memory pending set by a go/defer statement: the guard at the statement says nothing about the moment it runs")
+				continue
+			}
 			cs, why := c19Guard(p, c.Instr, 0)
 			if why != "" {
 				r.Violation("Y-dequeue", construct, p.Pos(c.Pos()), "blob dropped from the in-memory pending set where the copy's error is not known nil (it would not be retried until restart): "+why)
@@ -467,10 +1457,43 @@ func c19YDequeue(p *Program, r *Reporter, a *c19Anchors) {
 	type succPoint struct {
 		f    *ssa.Function
 		at   ssa.Instruction
+		val  ssa.Value
 		what string
 	}
 	var points []succPoint
-	for _, comp := range comps {
+	returnsOf := func(F *ssa.Function) {
+		for _, nr := range MaybeNilErrorReturns(F) {
+			at := ssa.Instruction(nr.Ret)
+			if nr.From != nil && nr.From != nr.Ret.Block() {
+				at = c19LastInstr(nr.From)
+			}
+			points = append(points, succPoint{F, at, nr.Val, "nil-return"})
+		}
+	}
+	// foreign: F's error result is also assigned outside F's own body
+	foreign := func(F *ssa.Function, cell *ssa.Alloc) bool {
+		for _, st := range storesTo(cell) {
+			if st.Parent() != F {
+				return true
+			}
+		}
+		return false
+	}
+	for i := 0; i < len(comps); i++ {
+		comp := comps[i]
+		if comp.idx < 0 {
+			// the deferred literal itself completes the copy
+			F := comp.fn.Parent()
+			construct := FuncKey(F) + "#deferred-completion#outcome"
+			cell := c19ResultCell(F)
+			if cell == nil || foreign(F, cell) {
+				r.Undecided("Y-dequeue", construct, p.Pos(comp.fn.Pos()), "the error result is also assigned inside a function literal; final value not followed")
+				continue
+			}
+			r.OK("Y-dequeue", construct, p.Pos(comp.fn.Pos()), "the completion runs in a literal deferred by "+FuncKey(F)+" under the fact that that function's error result, read at return time, is nil")
+			returnsOf(F)
+			continue
+		}
 		if len(p.FuncValueUses(comp.fn)) > 0 || len(p.InvokeSites(comp.fn)) > 0 {
 			r.Undecided("Y-dequeue", FuncKey(comp.fn)+"#callers", p.Pos(comp.fn.Pos()), "completion function is used as a value or through an interface; its callers cannot be enumerated")
 			continue
@@ -491,15 +1514,43 @@ func c19YDequeue(p *Program, r *Reporter, a *c19Anchors) {
 				r.Violation("Y-dequeue", construct, p.Pos(c.Pos()), "completion function started with go: its error argument is evaluated before the copy ran")
 				continue
 			}
+			if comp.ptr {
+				// the completion reads *arg when it runs: arg must be the address of the error
+				// result of the function F that defers it (directly or in a deferred literal),
+				// or a *error parameter handed on
+				if prm, ok := originValue(arg).(*ssa.Parameter); ok && c.Fn.Parent() == nil && c19IsErrPtrParam(prm) && c.Value() != nil {
+					for j, q := range c.Fn.Params {
+						if q == prm {
+							r.OK("Y-dequeue", construct, p.Pos(c.Pos()), "hands its own *error parameter on to the completion function: "+FuncKey(c.Fn)+" is a completion function itself")
+							add([]c19Completion{{fn: c.Fn, idx: j, ptr: true}})
+						}
+					}
+					continue
+				}
+				F := c.Fn
+				deferred := c.IsDefer()
+				if !deferred && F.Parent() != nil && c19DeferredBy(F.Parent(), F) {
+					F, deferred = F.Parent(), true
+				}
+				cell := c19ResultCell(F)
+				cv, isVar := varOf(arg)
+				switch {
+				case !deferred:
+					r.Violation("Y-dequeue", construct, p.Pos(c.Pos()), "completion function (reading the outcome through a pointer) is not deferred by the copy function: it does not see the copy's final outcome")
+				case cell == nil || !isVar || cv != ssa.Value(cell):
+					r.Violation("Y-dequeue", construct, p.Pos(c.Pos()), "the pointer handed to the completion function is not the address of the copy function's own error result")
+				case foreign(F, cell):
+					r.Undecided("Y-dequeue", construct, p.Pos(c.Pos()), "the error result is also assigned inside a function literal; final value not followed")
+				default:
+					r.OK("Y-dequeue", construct, p.Pos(c.Pos()), "deferred by "+FuncKey(F)+" with the address of that function's error result, read at return time")
+					returnsOf(F)
+				}
+				continue
+			}
 			// Form A: inside a literal deferred by F, passing F's error result cell
 			if L := c.Fn; L.Parent() != nil && !c.IsDefer() {
 				F := L.Parent()
-				deferred := false
-				for _, d := range DeferredCalls(F) {
-					if ClosureOf(d) == L {
-						deferred = true
-					}
-				}
+				deferred := c19DeferredBy(F, L)
 				cell := c19ResultCell(F)
 				ld, isLoad := arg.(*ssa.UnOp)
 				okArg := false
@@ -508,29 +1559,39 @@ func c19YDequeue(p *Program, r *Reporter, a *c19Anchors) {
 						okArg = true
 					}
 				}
-				foreign := false
-				if cell != nil {
-					for _, st := range storesTo(cell) {
-						if st.Parent() != F {
-							foreign = true
-						}
-					}
-				}
 				switch {
 				case !deferred:
 					r.Violation("Y-dequeue", construct, p.Pos(c.Pos()), "completion function called from a literal that is not deferred by the copy function: it does not see the copy's final outcome")
 				case !okArg:
 					r.Violation("Y-dequeue", construct, p.Pos(c.Pos()), "the error handed to the completion function is not the copy function's own error result (read when the deferred literal runs)")
-				case foreign:
+				case foreign(F, cell):
 					r.Undecided("Y-dequeue", construct, p.Pos(c.Pos()), "the error result is also assigned inside a function literal; final value not followed")
 				default:
 					r.OK("Y-dequeue", construct, p.Pos(c.Pos()), "called from a deferred literal of "+FuncKey(F)+" with that function's error result, read at return time")
-					for _, nr := range MaybeNilErrorReturns(F) {
-						at := ssa.Instruction(nr.Ret)
-						if nr.From != nil && nr.From != nr.Ret.Block() {
-							at = c19LastInstr(nr.From)
+					returnsOf(F)
+				}
+				continue
+			}
+			// Form P: the caller hands on what its own *error parameter points to when it
+			// runs (`defer cs.finish(&err)` with `func (cs) finish(errp *error) { cs.setError(*errp) }`)
+			if ld, ok := arg.(*ssa.UnOp); ok && ld.Op == token.MUL && c.Fn.Parent() == nil && c.Value() != nil {
+				if prm, ok := originValue(ld.X).(*ssa.Parameter); ok && prm.Parent() == c.Fn && c19IsErrPtrParam(prm) {
+					for j, q := range c.Fn.Params {
+						if q == prm {
+							r.OK("Y-dequeue", construct, p.Pos(c.Pos()), "hands on the error its *error parameter points to when it runs: "+FuncKey(c.Fn)+" is a completion function itself (its callers must defer it with the address of the copy function's error result)")
+							add([]c19Completion{{fn: c.Fn, idx: j, ptr: true}})
 						}
-						points = append(points, succPoint{F, at, "nil-return"})
+					}
+					continue
+				}
+			}
+			// Form F: the caller hands its own error parameter on (function split in two,
+			// wrapper): the caller is a completion function itself
+			if prm, ok := originValue(arg).(*ssa.Parameter); ok && c.Fn.Parent() == nil && isErrorType(prm.Type()) && c.Value() != nil {
+				for j, q := range c.Fn.Params {
+					if q == prm {
+						r.OK("Y-dequeue", construct, p.Pos(c.Pos()), "hands its own error parameter on to the completion function: "+FuncKey(c.Fn)+" is a completion function itself (its callers are checked)")
+						add([]c19Completion{{fn: c.Fn, idx: j}})
 					}
 				}
 				continue
@@ -548,7 +1609,7 @@ func c19YDequeue(p *Program, r *Reporter, a *c19Anchors) {
 				if m.From != nil && m.From != c.Block() {
 					at = c19LastInstr(m.From)
 				}
-				points = append(points, succPoint{F, at, "direct-success"})
+				points = append(points, succPoint{F, at, m.Val, "direct-success"})
 			}
 		}
 	}
@@ -556,7 +1617,7 @@ func c19YDequeue(p *Program, r *Reporter, a *c19Anchors) {
 		r.Violation("Y-dequeue", "pkg/server#copy-success-points", "?", "no success point of a copy function found")
 	}
 	for _, sp := range points {
-		c19CopyChain(p, r, a, sp.f, sp.at, sp.what)
+		c19CopyChain(p, r, a, sp.f, sp.at, sp.val, sp.what)
 	}
 }
 
@@ -607,8 +1668,11 @@ func c19StoreCall(c CallSite, a *c19Anchors) (dst, ref, rd ssa.Value, ok bool) {
 	return
 }
 
-// c19CopyChain checks the verified-copy conditions at success point `at` of F.
-func c19CopyChain(p *Program, r *Reporter, a *c19Anchors, F *ssa.Function, at ssa.Instruction, what string) {
+// c19CopyChain checks the verified-copy conditions at success point `at` of F
+// (val: the error value whose being nil defines success there), over F's
+// effective body.
+func c19CopyChain(p *Program, r *Reporter, a *c19Anchors, F *ssa.Function, at ssa.Instruction, val ssa.Value, what string) {
+	x := a.x
 	key := FuncKey(F) + "#" + what
 	site := p.Pos(at.Pos())
 	job := c19ParamOfType(F, a.sizedRef)
@@ -616,115 +1680,160 @@ func c19CopyChain(p *Program, r *Reporter, a *c19Anchors, F *ssa.Function, at ss
 		r.Undecided("Y-dequeue", key+"#job", site, "copy function has no single, never-reassigned blob.SizedRef parameter to identify the job")
 		return
 	}
-	refPath := job.Name() + ".Ref"
-	sizePath := job.Name() + ".Size"
+	root := x.root(F)
+	jobPath := x.path(job, root)
+	refPath := jobPath + ".Ref"
+	held := x.held(c19Point{root, at, val}, true)
+	// for diagnostics: candidates anywhere in the effective body
+	exists := func(pred func(c CallSite, fr *c19Frame) bool) (found bool, where string) {
+		x.effectiveCalls(root, func(c CallSite, fr *c19Frame) {
+			if !found && c.Value() != nil && pred(c, fr) {
+				found, where = true, p.Pos(c.Pos())+" in "+FuncKey(c.Fn)
+			}
+		})
+		return
+	}
+	notBefore := " does not complete successfully (err==nil edge, or its own error returned) before the success point on every path"
 
 	// (1) destination store
-	var dest CallSite
-	var dRef, dRd ssa.Value
-	why := "no ReceiveBlob on the handler's destination (sh.to) precedes it"
-	for _, c := range CallsIn(F, false) {
-		dst, ref, rd, ok := c19StoreCall(c, a)
+	isDest := func(c CallSite, fr *c19Frame) bool {
+		dst, _, _, ok := c19StoreCall(c, a)
 		if !ok {
-			continue
+			return false
 		}
-		if _, ok := c19FieldOf(dst, a.sh, "to"); !ok {
-			continue
-		}
-		if ok, w := SuccessDominates(c.Value(), at); !ok {
-			why = "ReceiveBlob on sh.to: " + w
-			continue
-		}
-		dest, dRef, dRd = c, ref, rd
+		_, ok = x.fieldOf(dst, fr, a.sh, "to")
+		return ok
 	}
-	if dest.Instr == nil {
+	var dest c19Ev
+	var dRef, dRd ssa.Value
+	for _, e := range held.evs {
+		if isDest(e.c, e.fr) {
+			_, ref, rd, _ := c19StoreCall(e.c, a)
+			dest, dRef, dRd = e, ref, rd
+		}
+	}
+	if dest.c.Instr == nil {
+		why := "no ReceiveBlob on the handler's destination (sh.to) precedes it"
+		if ok, where := exists(isDest); ok {
+			why = "ReceiveBlob on sh.to at " + where + notBefore
+		}
 		r.Violation("Y-dequeue", key+"#dest-receive", site, "success is not dominated by a successful destination write: "+why+" — the row would be dequeued although the destination never acknowledged the blob")
 		return
 	}
-	r.OK("Y-dequeue", key+"#dest-receive", p.Pos(dest.Pos()), "success point is on the err==nil edge of ReceiveBlob on sh.to")
-	r.Check(c19Path(dRef) == refPath, "Y-dequeue", key+"#dest-ref", p.Pos(dest.Pos()),
-		"the ref stored at the destination is the job's ref", "the ref stored at the destination ("+c19Path(dRef)+") is not the job's ref "+refPath)
+	r.OK("Y-dequeue", key+"#dest-receive", p.Pos(dest.c.Pos()), "success point is on the err==nil edge of ReceiveBlob on sh.to"+c19Via(dest.fr))
+	r.Check(x.path(dRef, dest.fr) == refPath, "Y-dequeue", key+"#dest-ref", p.Pos(dest.c.Pos()),
+		"the ref stored at the destination is the job's ref", "the ref stored at the destination ("+x.path(dRef, dest.fr)+") is not the job's ref "+refPath)
 
 	// (2) digest approval
-	known, val, hm := BoolCallFact(at.Block(), func(c CallSite) bool {
-		return c.IsStatic("perkeep.org/pkg/blob", "Ref", "HashMatches") || c.IsStatic("perkeep.org/pkg/blob", "SizedRef", "HashMatches")
-	})
+	var hm c19Ev
+	hmKnown, hmVal := false, false
+	for _, f := range held.facts {
+		cond, v := f.cond, f.val
+		for {
+			if u, ok := cond.(*ssa.UnOp); ok && u.Op == token.NOT {
+				cond, v = u.X, !v
+				continue
+			}
+			break
+		}
+		o, of := x.origin(cond, f.fr)
+		call, ok := o.(*ssa.Call)
+		if !ok {
+			continue
+		}
+		cs := CallSite{call.Parent(), call}
+		if cs.IsStatic("perkeep.org/pkg/blob", "Ref", "HashMatches") || cs.IsStatic("perkeep.org/pkg/blob", "SizedRef", "HashMatches") {
+			if !hmKnown || v {
+				hm, hmKnown, hmVal = c19Ev{cs, of}, true, v
+			}
+		}
+	}
 	var h ssa.Value
-	if !known || !val {
+	var hf *c19Frame
+	if !hmKnown || !hmVal {
 		r.Violation("Y-dequeue", key+"#hash-match", site, "success is not under the fact HashMatches(...)==true: corrupt source bytes would be written and the row dequeued")
-	} else if got := c19Path(hm.Args()[0]); got != refPath && got != job.Name() {
-		r.Violation("Y-dequeue", key+"#hash-match", p.Pos(hm.Pos()), "HashMatches is evaluated on "+got+", not on the job's ref "+refPath)
+	} else if got := x.path(hm.c.Args()[0], hm.fr); got != refPath && got != jobPath {
+		r.Violation("Y-dequeue", key+"#hash-match", p.Pos(hm.c.Pos()), "HashMatches is evaluated on "+got+", not on the job's ref "+refPath)
 	} else {
-		h = originValue(hm.Args()[1])
-		r.OK("Y-dequeue", key+"#hash-match", p.Pos(hm.Pos()), "success point is under HashMatches(job ref, h)==true")
+		h, hf = x.origin(hm.c.Args()[1], hm.fr)
+		r.OK("Y-dequeue", key+"#hash-match", p.Pos(hm.c.Pos()), "success point is under HashMatches(job ref, h)==true"+c19Via(hm.fr))
 	}
 
 	// (3) source fetch
-	var fetch *ssa.Call
-	fwhy := "no Fetch on the handler's source (sh.from) precedes it"
-	for _, c := range CallsIn(F, false) {
+	isFetchOnFrom := func(c CallSite, fr *c19Frame) bool {
 		if c.Value() == nil || !c.IsMethod("Fetch", a.fetchIf) {
+			return false
+		}
+		_, ok := x.fieldOf(c.Args()[0], fr, a.sh, "from")
+		return ok
+	}
+	var fetch c19Ev
+	fwhy := "no Fetch on the handler's source (sh.from) precedes it"
+	if ok, where := exists(isFetchOnFrom); ok {
+		fwhy = "Fetch on sh.from at " + where + notBefore
+	}
+	for _, e := range held.evs {
+		if !isFetchOnFrom(e.c, e.fr) {
 			continue
 		}
-		ar := c.Args()
-		if _, ok := c19FieldOf(ar[0], a.sh, "from"); !ok {
-			continue
-		}
-		if c19Path(ar[len(ar)-1]) != refPath {
+		ar := e.c.Args()
+		if x.path(ar[len(ar)-1], e.fr) != refPath {
 			fwhy = "Fetch on sh.from is not of the job's ref"
 			continue
 		}
-		if ok, w := SuccessDominates(c.Value(), at); !ok {
-			fwhy = "Fetch on sh.from: " + w
-			continue
-		}
-		fetch = c.Value()
+		fetch = e
 	}
-	if fetch == nil {
+	if fetch.c.Instr == nil {
 		r.Violation("Y-dequeue", key+"#fetch", site, "success is not dominated by a successful source fetch: "+fwhy)
 	} else {
-		r.OK("Y-dequeue", key+"#fetch", p.Pos(fetch.Pos()), "success point is on the err==nil edge of Fetch(job ref) on sh.from")
+		r.OK("Y-dequeue", key+"#fetch", p.Pos(fetch.c.Pos()), "success point is on the err==nil edge of Fetch(job ref) on sh.from"+c19Via(fetch.fr))
 	}
 
 	// (4) bytes: fetch body -> (tee into h) -> full read into buf -> destination reader
 	var buf ssa.Value
+	var buff *c19Frame
+	isFullRead := func(c CallSite, _ *c19Frame) bool {
+		return c.IsStatic("io", "", "ReadFull") || c.IsStatic("io", "", "ReadAll")
+	}
 	bytesOK, bwhy := false, "no successful full read (io.ReadFull / io.ReadAll) precedes it"
-	for _, c := range CallsIn(F, false) {
-		if c.Value() == nil {
-			continue
-		}
+	if ok, where := exists(isFullRead); ok {
+		bwhy = "the full read at " + where + notBefore + " (a short read would be hashed and written as if complete)"
+	}
+	for _, e := range held.evs {
+		c := e.c
 		var rd, b ssa.Value
+		var bf *c19Frame
 		switch {
 		case c.IsStatic("io", "", "ReadFull"):
-			rd, b = c.Args()[0], originValue(c.Args()[1])
+			rd = c.Args()[0]
+			b, bf = x.origin(c.Args()[1], e.fr)
 		case c.IsStatic("io", "", "ReadAll"):
-			rd, b = c.Args()[0], ResultValue(c.Value(), 0)
+			rd = c.Args()[0]
+			if rv := ResultValue(c.Value(), 0); rv != nil {
+				b, bf = x.origin(rv, e.fr)
+			}
 		default:
 			continue
 		}
 		if b == nil {
 			continue
 		}
-		if ok, w := SuccessDominates(c.Value(), at); !ok {
-			bwhy = "full read: " + w + " (a short read would be hashed and written as if complete)"
-			continue
-		}
-		if !c19FlowsFrom(dRd, b) {
+		if !x.flowsFrom(dRd, dest.fr, b, bf) {
 			bwhy = "the destination is not fed from the buffer filled by the checked full read"
 			continue
 		}
-		if fetch != nil {
-			body := ResultValue(fetch, 0)
-			if body == nil || !c19FlowsFrom(rd, body) {
+		if fetch.c.Instr != nil {
+			body := ResultValue(fetch.c.Value(), 0)
+			if body == nil || !x.flowsFrom(rd, e.fr, body, fetch.fr) {
 				bwhy = "the full read does not read the body returned by the checked Fetch"
 				continue
 			}
 		}
-		if h != nil && !c19FlowsFrom(rd, h) && !c19HashFedFrom(F, h, b, hm) {
+		if h != nil && !x.flowsFrom(rd, e.fr, h, hf) && !c19HashFedFrom(x, h, hf, b, bf, hm) {
 			bwhy = "the hash that HashMatches approves is fed neither by the reader of the full read nor by a Write of the filled buffer (digest of other bytes than those written)"
 			continue
 		}
-		bytesOK, buf = true, b
+		bytesOK, buf, buff = true, b, bf
 	}
 	if bytesOK {
 		r.OK("Y-dequeue", key+"#bytes", site, "destination reader <- buffer <- successful full read <- tee(hash approved by HashMatches) <- body of the checked Fetch")
@@ -734,53 +1843,57 @@ func c19CopyChain(p *Program, r *Reporter, a *c19Anchors, F *ssa.Function, at ss
 
 	// (5) acknowledged size == sent size, through the equality facts at the success point
 	var sent ssa.Value
+	var sentf *c19Frame
 	if ms, ok := buf.(*ssa.MakeSlice); ok {
-		sent = originValue(ms.Len)
+		sent, sentf = x.origin(ms.Len, buff)
 	}
-	ack0 := ResultValue(dest.Value(), 0)
-	keyOf := func(v ssa.Value) string {
-		for {
-			if cv, ok := v.(*ssa.Convert); ok {
+	ack0 := ResultValue(dest.c.Value(), 0)
+	keyOf := func(v ssa.Value, fr *c19Frame) string {
+		var o ssa.Value
+		of := fr
+		for i := 0; i < 8; i++ {
+			o, of = x.origin(v, of)
+			if cv, ok := o.(*ssa.Convert); ok {
 				v = cv.X
 				continue
 			}
 			break
 		}
-		o := originValue(v)
-		if c19IsSizeOf(o, ack0, a) {
+		if c19IsSizeOf(x, o, of, ack0, dest.fr) {
 			return "ACK"
 		}
-		if sent != nil && (o == sent || sameOrigin(o, sent)) {
+		if sent != nil && o == sent && of == sentf {
 			return "SENT"
 		}
 		if call, ok := o.(*ssa.Call); ok {
-			if b, ok := call.Call.Value.(*ssa.Builtin); ok && b.Name() == "len" && buf != nil && originValue(call.Call.Args[0]) == buf {
-				return "SENT"
+			if b, ok := call.Call.Value.(*ssa.Builtin); ok && b.Name() == "len" && buf != nil {
+				if lo, lf := x.origin(call.Call.Args[0], of); lo == buf && lf == buff {
+					return "SENT"
+				}
 			}
 		}
-		return AccessPath(o)
+		return x.path(o, of)
 	}
 	parent := map[string]string{}
 	var find func(string) string
-	find = func(x string) string {
-		if parent[x] == "" || parent[x] == x {
-			parent[x] = x
-			return x
+	find = func(s string) string {
+		if parent[s] == "" || parent[s] == s {
+			parent[s] = s
+			return s
 		}
-		parent[x] = find(parent[x])
-		return parent[x]
+		parent[s] = find(parent[s])
+		return parent[s]
 	}
-	for _, f := range FactsAt(at.Block()) {
-		bo, ok := f.Cond.(*ssa.BinOp)
-		if !ok || !((bo.Op == token.EQL && f.Val) || (bo.Op == token.NEQ && !f.Val)) {
+	for _, f := range held.facts {
+		bo, ok := f.cond.(*ssa.BinOp)
+		if !ok || !((bo.Op == token.EQL && f.val) || (bo.Op == token.NEQ && !f.val)) {
 			continue
 		}
-		parent[find(keyOf(bo.X))] = find(keyOf(bo.Y))
+		parent[find(keyOf(bo.X, f.fr))] = find(keyOf(bo.Y, f.fr))
 	}
-	_ = sizePath
 	switch {
 	case ack0 == nil:
-		r.Violation("Y-dequeue", key+"#dest-size", p.Pos(dest.Pos()), "the SizedRef acknowledged by the destination is ignored: a destination that stored a truncated blob would still cause the dequeue")
+		r.Violation("Y-dequeue", key+"#dest-size", p.Pos(dest.c.Pos()), "the SizedRef acknowledged by the destination is ignored: a destination that stored a truncated blob would still cause the dequeue")
 	case sent == nil:
 		r.Undecided("Y-dequeue", key+"#dest-size", site, "cannot determine the number of bytes sent (buffer is not a make([]byte, n) filled by the checked read)")
 	case find("ACK") == find("SENT"):
@@ -790,37 +1903,55 @@ func c19CopyChain(p *Program, r *Reporter, a *c19Anchors, F *ssa.Function, at ss
 	}
 }
 
+// c19Via names the helper chain an event was found through ("" in the root).
+func c19Via(fr *c19Frame) string {
+	if fr == nil || fr.up == nil {
+		return ""
+	}
+	var names []string
+	for f := fr; f != nil && f.up != nil; f = f.up {
+		names = append([]string{FuncKey(f.callee)}, names...)
+	}
+	return " (inside helper " + strings.Join(names, " -> ") + ", whose successful return it dominates)"
+}
+
 // c19HashFedFrom: h.Write(buf) (buf being the buffer of the checked full read)
 // executed before HashMatches is evaluated.
-func c19HashFedFrom(F *ssa.Function, h, buf ssa.Value, hm CallSite) bool {
-	for _, c := range CallsIn(F, false) {
-		if c.Value() == nil || c.MethodName() != "Write" || len(c.Args()) != 2 {
+func c19HashFedFrom(x *c19X, h ssa.Value, hf *c19Frame, buf ssa.Value, buff *c19Frame, hm c19Ev) bool {
+	if hm.c.Instr == nil {
+		return false
+	}
+	before := x.held(c19Point{hm.fr, hm.c.Instr, nil}, false)
+	for _, e := range before.evs {
+		c := e.c
+		if c.MethodName() != "Write" || len(c.Args()) != 2 {
 			continue
 		}
-		if originValue(c.Args()[0]) != h || originValue(c.Args()[1]) != buf {
+		if o, of := x.origin(c.Args()[0], e.fr); o != h || of != hf {
 			continue
 		}
-		if Precedes(c.Instr, hm.Instr) {
-			return true
+		if o, of := x.origin(c.Args()[1], e.fr); o != buf || of != buff {
+			continue
 		}
+		return true
 	}
 	return false
 }
 
 // c19IsSizeOf reports whether v is the Size field of SizedRef value sr (an
 // Extract), directly or through a single-store local.
-func c19IsSizeOf(v, sr ssa.Value, a *c19Anchors) bool {
-	if sr == nil {
+func c19IsSizeOf(x *c19X, v ssa.Value, fr *c19Frame, sr ssa.Value, srf *c19Frame) bool {
+	if sr == nil || v == nil {
 		return false
 	}
-	switch x := v.(type) {
+	switch t := v.(type) {
 	case *ssa.Field:
-		return fieldName(x.X.Type(), x.Field) == "Size" && originValue(x.X) == sr
+		return fieldName(t.X.Type(), t.Field) == "Size" && x.same(t.X, fr, sr, srf)
 	case *ssa.UnOp:
-		if x.Op != token.MUL {
+		if t.Op != token.MUL {
 			return false
 		}
-		fa, ok := x.X.(*ssa.FieldAddr)
+		fa, ok := t.X.(*ssa.FieldAddr)
 		if !ok || fieldName(fa.X.Type(), fa.Field) != "Size" {
 			return false
 		}
@@ -829,15 +1960,15 @@ func c19IsSizeOf(v, sr ssa.Value, a *c19Anchors) bool {
 			return false
 		}
 		sts := storesTo(al)
-		if len(sts) != 1 || sts[0].Val != sr {
+		if len(sts) != 1 || !x.same(sts[0].Val, x.frameFor(sts[0].Val, fr), sr, srf) {
 			return false
 		}
 		// no field-wise stores
 		if ar := al.Referrers(); ar != nil {
 			for _, au := range *ar {
 				if f2, ok := au.(*ssa.FieldAddr); ok {
-					if fr := f2.Referrers(); fr != nil {
-						for _, fu := range *fr {
+					if fr2 := f2.Referrers(); fr2 != nil {
+						for _, fu := range *fr2 {
 							if s, ok := fu.(*ssa.Store); ok && s.Addr == ssa.Value(f2) {
 								return false
 							}
@@ -855,43 +1986,172 @@ func c19IsSizeOf(v, sr ssa.Value, a *c19Anchors) bool {
 // builders of queue-backed handlers (shared by Y-enqueue, Y-reload, Y-start)
 
 type c19Builder struct {
-	site CallSite      // call of a constructor (function storing SyncHandler.queue)
-	sh   ssa.Value     // the handler value
-	from ssa.Value     // the argument stored into the handler's `from` field (may be nil)
-	g    *ssa.Function // enclosing function
+	start ssa.Instruction // the queue-backed handler exists from here on
+	sh    ssa.Value       // the handler value in g
+	from  ssa.Value       // the handler's source storage as a value of g (may be nil)
+	g     *ssa.Function   // enclosing function
+	depth int
 }
 
+// c19Builders: by role, a builder is a function in which a queue-backed handler
+// comes into existence: the store that sets SyncHandler.queue (composite
+// literal or assignment). A builder that is an unexported helper whose callers
+// are all known and that hands the handler to them passes its open obligations
+// on to them (c19Discharge), so it does not matter whether the constructor is a
+// function of its own, is wrapped once more, or is inlined into its caller.
 func c19Builders(p *Program, a *c19Anchors) []c19Builder {
 	var out []c19Builder
 	for _, ctor := range a.ctors {
-		fromIdx := -1
 		for _, b := range ctor.Blocks {
 			for _, in := range b.Instrs {
 				st, ok := in.(*ssa.Store)
 				if !ok {
 					continue
 				}
-				if _, ok := c19IsFieldAddr(st.Addr, a.sh, "from"); ok {
-					for i, prm := range ctor.Params {
-						if originValue(st.Val) == ssa.Value(prm) {
-							fromIdx = i
+				fa, ok := c19IsFieldAddr(st.Addr, a.sh, "queue")
+				if !ok {
+					continue
+				}
+				bd := c19Builder{start: st, sh: originValue(fa.X), g: ctor}
+				for _, b2 := range ctor.Blocks {
+					for _, in2 := range b2.Instrs {
+						if st2, ok := in2.(*ssa.Store); ok {
+							if fa2, ok := c19IsFieldAddr(st2.Addr, a.sh, "from"); ok && originValue(fa2.X) == bd.sh {
+								bd.from = st2.Val
+							}
 						}
 					}
 				}
+				out = append(out, bd)
 			}
-		}
-		for _, c := range p.StaticCallers(ctor) {
-			if c.Value() == nil || IsTestSupportPkg(RelPkg(c.Fn.Pkg.Pkg)) {
-				continue
-			}
-			b := c19Builder{site: c, sh: c.Value(), g: c.Fn}
-			if fromIdx >= 0 && fromIdx < len(c.Args()) {
-				b.from = c.Args()[fromIdx]
-			}
-			out = append(out, b)
 		}
 	}
 	return out
+}
+
+// c19Escalate: the builders that receive the handler from b.g, when b.g is a
+// helper (unexported, top-level, never used as a value, at least one caller in
+// the module) that returns the handler.
+func c19Escalate(p *Program, b c19Builder) ([]c19Builder, bool) {
+	g := b.g
+	if g.Parent() != nil || token.IsExported(g.Name()) || b.depth >= 4 || len(p.FuncValueUses(g)) > 0 || len(p.InvokeSites(g)) > 0 {
+		return nil, false
+	}
+	idx := -1
+	for _, ri := range Returns(g) {
+		for i, res := range ri.Results {
+			if sameOrigin(res, b.sh) {
+				if idx >= 0 && idx != i {
+					return nil, false
+				}
+				idx = i
+			}
+		}
+	}
+	if idx < 0 {
+		return nil, false
+	}
+	var out []c19Builder
+	n := 0
+	for _, c := range p.StaticCallers(g) {
+		if c.Fn.Pkg == nil || IsTestSupportPkg(RelPkg(c.Fn.Pkg.Pkg)) {
+			continue
+		}
+		n++
+		if c.Value() == nil {
+			continue // go/defer: the result is dropped, nothing is handed out
+		}
+		hv := ResultValue(c.Value(), idx)
+		if hv == nil {
+			continue
+		}
+		nb := c19Builder{start: c.Instr, sh: hv, g: c.Fn, depth: b.depth + 1}
+		if prm, ok := originValue(b.from).(*ssa.Parameter); ok && b.from != nil {
+			for i, q := range g.Params {
+				if q == prm && i < len(c.Args()) {
+					nb.from = c.Args()[i]
+				}
+			}
+		}
+		out = append(out, nb)
+	}
+	return out, n > 0
+}
+
+// c19Discharge checks "every path from the builder's start to a return handing
+// the handler out passes stop"; open paths of a helper builder become
+// obligations of its callers. final is called once per function at which the
+// obligation is finally decided (leaks empty = discharged).
+func c19Discharge(p *Program, b c19Builder, mkStop func(b c19Builder) func(ssa.Instruction) bool, final func(b c19Builder, leaks []Leak)) {
+	leaks := c19AllPaths(b, mkStop(b))
+	if len(leaks) > 0 {
+		if nbs, ok := c19Escalate(p, b); ok {
+			for _, nb := range nbs {
+				c19Discharge(p, nb, mkStop, final)
+			}
+			return
+		}
+	}
+	final(b, leaks)
+}
+
+// c19DeepStop lifts a per-instruction predicate over (instruction, handler,
+// source) to helper calls: a plain call of a same-package function, method or
+// literal that is handed the handler satisfies it when every path through the
+// helper passes an instruction that does (depth 3).
+func c19DeepStop(stop func(in ssa.Instruction, sh, from ssa.Value) bool) func(in ssa.Instruction, sh, from ssa.Value) bool {
+	var deep func(in ssa.Instruction, sh, from ssa.Value, depth int) bool
+	deep = func(in ssa.Instruction, sh, from ssa.Value, depth int) bool {
+		if stop(in, sh, from) {
+			return true
+		}
+		call, ok := in.(*ssa.Call)
+		if !ok || depth >= 3 {
+			return false
+		}
+		c := CallSite{in.Parent(), call}
+		if _, isBuiltin := call.Call.Value.(*ssa.Builtin); isBuiltin {
+			return false
+		}
+		g := c.Callee()
+		if g == nil || g.Blocks == nil || g.Synthetic != "" || g.Pkg == nil || g.Pkg != in.Parent().Pkg {
+			return false
+		}
+		var sh2, from2 ssa.Value
+		for i, arg := range c.Args() {
+			if i >= len(g.Params) {
+				break
+			}
+			if sameOrigin(arg, sh) {
+				sh2 = g.Params[i]
+			}
+			if from != nil && sameOrigin(arg, from) {
+				from2 = g.Params[i]
+			}
+		}
+		if g.Parent() != nil {
+			// a literal sees the handler through the variables it captures
+			if sh2 == nil {
+				sh2 = sh
+			}
+			if from2 == nil {
+				from2 = from
+			}
+		}
+		if sh2 == nil {
+			return false
+		}
+		first := g.Blocks[0].Instrs[0]
+		if deep(first, sh2, from2, depth+1) {
+			return true
+		}
+		return len(LeakingExits(PathQuery{
+			Start:        first,
+			Stop:         func(i ssa.Instruction) bool { return deep(i, sh2, from2, depth+1) },
+			IgnorePanics: true,
+		})) == 0
+	}
+	return func(in ssa.Instruction, sh, from ssa.Value) bool { return deep(in, sh, from, 0) }
 }
 
 // c19HandsOut reports whether the return hands the handler out.
@@ -910,7 +2170,7 @@ func c19HandsOut(ret *ssa.Return, sh ssa.Value) bool {
 // handler out passes an instruction satisfying stop.
 func c19AllPaths(b c19Builder, stop func(ssa.Instruction) bool) []Leak {
 	return LeakingExits(PathQuery{
-		Start: b.site.Instr,
+		Start: b.start,
 		Stop:  stop,
 		ExitOK: func(exit ssa.Instruction) bool {
 			ret, ok := exit.(*ssa.Return)
@@ -965,22 +2225,131 @@ func c19BoundMethodOf(v ssa.Value, m *ssa.Function) (recv ssa.Value, ok bool) {
 	return nil, false
 }
 
+// c19PresentFact: the block is under the fact that needCopy holds the key
+// looked up (the comma-ok of a lookup in SyncHandler.needCopy is true).
+func c19PresentFact(a *c19Anchors, b *ssa.BasicBlock) bool {
+	for _, f := range FactsAt(b) {
+		cond, val := f.Cond, f.Val
+		for {
+			if u, ok := cond.(*ssa.UnOp); ok && u.Op == token.NOT {
+				cond, val = u.X, !val
+				continue
+			}
+			break
+		}
+		ex, ok := originValue(cond).(*ssa.Extract)
+		if !ok || ex.Index != 1 || !val {
+			continue
+		}
+		if lk, ok := ex.Tuple.(*ssa.Lookup); ok && lk.CommaOk {
+			if _, ok := c19FieldOf(lk.X, a.sh, "needCopy"); ok {
+				return true
+			}
+		}
+	}
+	return false
+}
+
+// c19DupFalseMeansPresent: g returns a single bool, and returns false only
+// where needCopy is known to hold the ref (directly, or by returning the result
+// of a function with that property, or the negation of the lookup's comma-ok).
+func c19DupFalseMeansPresent(a *c19Anchors, g *ssa.Function, depth int) bool {
+	if g == nil || g.Blocks == nil || depth > 3 || g.Signature.Results().Len() != 1 {
+		return false
+	}
+	rets := Returns(g)
+	if len(rets) == 0 {
+		return false
+	}
+	for _, ri := range rets {
+		if len(ri.Results) != 1 {
+			return false
+		}
+		v := originValue(ri.Results[0])
+		switch t := v.(type) {
+		case *ssa.Const:
+			if t.Value != nil && t.Value.String() == "true" {
+				continue
+			}
+			if t.Value != nil && t.Value.String() == "false" && c19PresentFact(a, ri.Ret.Block()) {
+				continue
+			}
+			return false
+		case *ssa.Call:
+			if c19DupFalseMeansPresent(a, (CallSite{t.Parent(), t}).Callee(), depth+1) {
+				continue
+			}
+			return false
+		case *ssa.UnOp:
+			if t.Op == token.NOT {
+				if ex, ok := originValue(t.X).(*ssa.Extract); ok && ex.Index == 1 {
+					if lk, ok := ex.Tuple.(*ssa.Lookup); ok && lk.CommaOk {
+						if _, ok := c19FieldOf(lk.X, a.sh, "needCopy"); ok {
+							continue
+						}
+					}
+				}
+			}
+			return false
+		default:
+			return false
+		}
+	}
+	return true
+}
+
+// c19ReportDup reports, per constant-false return of g, whether it is under the
+// "already pending" fact.
+func c19ReportDup(p *Program, r *Reporter, a *c19Anchors, g *ssa.Function) {
+	for _, ri := range Returns(g) {
+		if len(ri.Results) != 1 {
+			continue
+		}
+		c, ok := ri.Results[0].(*ssa.Const)
+		if !ok || c.Value == nil || c.Value.String() != "false" {
+			continue
+		}
+		r.Check(c19PresentFact(a, ri.Ret.Block()), "Y-enqueue", FuncKey(g)+"#duplicate-means-present", p.Pos(ri.Ret.Pos()),
+			"'false' (duplicate) is returned only under the fact that needCopy already holds the ref",
+			"'false' (duplicate) is returned without needCopy being known to hold the ref: enqueue would skip queue.Set for a blob that is not pending")
+	}
+}
+
 // ---------------------------------------------------------------------------
 // Y-enqueue
 
 func c19YEnqueue(p *Program, r *Reporter, a *c19Anchors) {
 	hubIface := p.Iface("pkg/blobserver", "BlobHub")
-	// the enqueue function, by role: encloses the queue.Set site(s)
-	var enq *ssa.Function
+	x := a.x
+	// the function that inserts into the queue, by role: encloses the queue.Set site(s)
+	var setter *ssa.Function
+	setInstr := map[ssa.Instruction]bool{}
 	for _, s := range a.qSet {
-		if enq != nil && enq != TopFunc(s.Fn) {
+		if setter != nil && setter != TopFunc(s.Fn) {
 			r.Undecided("Y-enqueue", FuncKey(s.Fn)+"#queue.Set", p.Pos(s.Pos()), "more than one function inserts into the queue; the hook method cannot be identified")
 		}
-		enq = TopFunc(s.Fn)
+		setter = TopFunc(s.Fn)
+		setInstr[s.Instr] = true
 	}
-	if enq == nil {
+	if setter == nil {
 		r.Violation("Y-enqueue", "pkg/server.(*SyncHandler)#queue.Set", "?", "nothing ever inserts into the persistent queue")
 		return
+	}
+	// the enqueue candidates: the setter and the pkg/server functions that reach it
+	// through plain static calls (the insertion may have been extracted into a
+	// helper); the hook that builders register must be one of them, and the one(s)
+	// registered are checked below over their effective body
+	cands := []*ssa.Function{setter}
+	inCands := map[*ssa.Function]bool{setter: true}
+	for i, d := 0, 0; i < len(cands) && d < 64; i, d = i+1, d+1 {
+		for _, c := range p.StaticCallers(cands[i]) {
+			t := TopFunc(c.Fn)
+			if c.Fn.Synthetic != "" || c.Value() == nil || !c19InServer(t) || inCands[t] || len(cands) > 12 {
+				continue
+			}
+			inCands[t] = true
+			cands = append(cands, t)
+		}
 	}
 	// in-memory add, by role: updates needCopy
 	for _, fn := range p.FuncsIn("pkg/server") {
@@ -1000,89 +2369,136 @@ func c19YEnqueue(p *Program, r *Reporter, a *c19Anchors) {
 	if len(builders) == 0 {
 		r.Violation("Y-enqueue", "pkg/server#builders", "?", "no function builds a queue-backed SyncHandler")
 	}
-	for _, b := range builders {
-		construct := FuncKey(b.g) + "#AddReceiveHook"
-		wrong := ""
-		stop := func(in ssa.Instruction) bool {
-			ci, ok := in.(ssa.CallInstruction)
-			if !ok {
-				return false
+	hooked := map[*ssa.Function]bool{}
+	var hookedList []*ssa.Function
+	wrong := ""
+	isHook := c19DeepStop(func(in ssa.Instruction, sh, from ssa.Value) bool {
+		ci, ok := in.(ssa.CallInstruction)
+		if !ok {
+			return false
+		}
+		c := CallSite{in.Parent(), ci}
+		if c.MethodName() != "AddReceiveHook" || !c.IsMethod("AddReceiveHook", hubIface) || c.IsGo() || c.IsDefer() {
+			return false
+		}
+		ar := c.Args()
+		var m *ssa.Function
+		var recv ssa.Value
+		for _, cand := range cands {
+			if rv, ok := c19BoundMethodOf(ar[1], cand); ok {
+				m, recv = cand, rv
+				break
 			}
-			c := CallSite{in.Parent(), ci}
-			if c.MethodName() != "AddReceiveHook" || !c.IsMethod("AddReceiveHook", hubIface) || c.IsGo() || c.IsDefer() {
-				return false
-			}
-			ar := c.Args()
-			recv, ok := c19BoundMethodOf(ar[1], enq)
-			if !ok {
-				wrong = "a hook other than the handler's enqueue method is registered"
-				return false
-			}
-			if !sameOrigin(recv, b.sh) {
-				wrong = "enqueue of a different handler is registered"
-				return false
-			}
-			hubCall, ok := originValue(ar[0]).(*ssa.Call)
-			if !ok || !(CallSite{hubCall.Parent(), hubCall}).IsStatic("perkeep.org/pkg/blobserver", "", "GetHub") {
-				wrong = "the hub is not obtained from blobserver.GetHub"
-				return false
-			}
-			st := hubCall.Call.Args[0]
-			if base, ok := c19FieldOf(st, a.sh, "from"); ok && sameOrigin(base, b.sh) {
-				return true
-			}
-			if b.from != nil && sameOrigin(st, b.from) {
-				return true
-			}
+		}
+		if m == nil {
+			wrong = "a hook other than the handler's enqueue method is registered"
+			return false
+		}
+		if !sameOrigin(recv, sh) {
+			wrong = "enqueue of a different handler is registered"
+			return false
+		}
+		hubCall, ok := originValue(ar[0]).(*ssa.Call)
+		if !ok || !(CallSite{hubCall.Parent(), hubCall}).IsStatic("perkeep.org/pkg/blobserver", "", "GetHub") {
+			wrong = "the hub is not obtained from blobserver.GetHub"
+			return false
+		}
+		st := hubCall.Call.Args[0]
+		okHub := false
+		if base, ok := c19FieldOf(st, a.sh, "from"); ok && sameOrigin(base, sh) {
+			okHub = true
+		}
+		if from != nil && sameOrigin(st, from) {
+			okHub = true
+		}
+		if !okHub {
 			wrong = "the hook is registered on the hub of a storage that is not the handler's source"
 			return false
 		}
-		leaks := c19AllPaths(b, stop)
-		if len(leaks) == 0 {
-			r.OK("Y-enqueue", construct, p.Pos(b.site.Pos()), "every path handing the handler out registers its enqueue method on GetHub(source)")
-		} else {
-			d := "a handler is handed out without its enqueue method registered as receive hook of its source: " + c19LeakText(p, leaks)
-			if wrong != "" {
-				d += " (" + wrong + ")"
-			}
-			r.Violation("Y-enqueue", construct, p.Pos(b.site.Pos()), d)
+		if !hooked[m] {
+			hooked[m] = true
+			hookedList = append(hookedList, m)
 		}
+		return true
+	})
+	for _, b0 := range builders {
+		c19Discharge(p, b0,
+			func(b c19Builder) func(ssa.Instruction) bool {
+				return func(in ssa.Instruction) bool { return isHook(in, b.sh, b.from) }
+			},
+			func(b c19Builder, leaks []Leak) {
+				construct := FuncKey(b.g) + "#AddReceiveHook"
+				if len(leaks) == 0 {
+					r.OK("Y-enqueue", construct, p.Pos(b.start.Pos()), "every path handing the handler out registers its enqueue method on GetHub(source)")
+					return
+				}
+				d := "a handler is handed out without its enqueue method registered as receive hook of its source: " + c19LeakText(p, leaks)
+				if wrong != "" {
+					d += " (" + wrong + ")"
+				}
+				r.Violation("Y-enqueue", construct, p.Pos(b.start.Pos()), d)
+			})
 	}
+	if len(hookedList) == 0 {
+		hookedList = []*ssa.Function{setter}
+	}
+	a.enqs = hookedList
 
-	// E2: returns of enqueue
+	// E2: returns of enqueue (the registered hook), over its effective body
 	for _, s := range a.qSet {
-		if s.Fn != enq || s.Value() == nil {
+		if s.Value() == nil || s.Fn.Parent() != nil {
 			r.Undecided("Y-enqueue", FuncKey(s.Fn)+"#queue.Set", p.Pos(s.Pos()), "queue.Set inside a literal or as go/defer: its error is not followed")
 			continue
 		}
-		ev, _, discarded := ErrValue(s.Value())
-		if discarded {
-			r.Violation("Y-enqueue", FuncKey(enq)+"#queue.Set#error", p.Pos(s.Pos()), "the error of queue.Set is discarded: the uploader is told the blob was accepted although it was not queued persistently")
-			continue
+		if _, _, discarded := ErrValue(s.Value()); discarded {
+			r.Violation("Y-enqueue", FuncKey(s.Fn)+"#queue.Set#error", p.Pos(s.Pos()), "the error of queue.Set is discarded: the uploader is told the blob was accepted although it was not queued persistently")
 		}
+	}
+	dupOK := map[*ssa.Function]bool{}
+	for _, enq := range hookedList {
 		n := 0
-		for _, nr := range MaybeNilErrorReturns(enq) {
+		root := x.root(enq)
+		for _, pt := range c19ExitPoints(root, true) {
 			n++
-			at := ssa.Instruction(nr.Ret)
-			if nr.From != nil && nr.From != nr.Ret.Block() {
-				at = c19LastInstr(nr.From)
-			}
 			construct := FuncKey(enq) + "#nil-return"
-			if sameOrigin(nr.Val, ev) {
-				r.OK("Y-enqueue", construct, p.Pos(nr.Ret.Pos()), "returns queue.Set's own error")
-				continue
-			}
-			if ok, _ := SuccessDominates(s.Value(), at); ok {
-				r.OK("Y-enqueue", construct, p.Pos(nr.Ret.Pos()), "on the err==nil edge of queue.Set")
-				continue
-			}
-			if a.memAdd != nil {
-				if k, v, _ := BoolCallFact(at.Block(), func(c CallSite) bool { return c.Callee() == a.memAdd }); k && !v {
-					r.OK("Y-enqueue", construct, p.Pos(nr.Ret.Pos()), "duplicate edge: the in-memory add reported the ref as already pending")
-					continue
+			site := p.Pos(pt.at.Pos())
+			held := x.held(pt, true)
+			done := false
+			for _, e := range held.evs {
+				if setInstr[e.c.Instr] {
+					r.OK("Y-enqueue", construct, site, "queue.Set succeeded before this return (err==nil edge, or its own error is what is returned)"+c19Via(e.fr))
+					done = true
+					break
 				}
 			}
-			r.Violation("Y-enqueue", construct, p.Pos(nr.Ret.Pos()), "enqueue can return nil without queue.Set having succeeded and without the blob being a known duplicate: the pending blob would not survive a restart")
+			if done {
+				continue
+			}
+			for _, f := range held.facts {
+				cond, v := f.cond, f.val
+				for {
+					if u, ok := cond.(*ssa.UnOp); ok && u.Op == token.NOT {
+						cond, v = u.X, !v
+						continue
+					}
+					break
+				}
+				call, ok := originValue(cond).(*ssa.Call)
+				if !ok || v {
+					continue
+				}
+				g := (CallSite{call.Parent(), call}).Callee()
+				if g == nil || !c19DupFalseMeansPresent(a, g, 0) {
+					continue
+				}
+				dupOK[g] = true
+				r.OK("Y-enqueue", construct, site, "duplicate edge: the in-memory add reported the ref as already pending")
+				done = true
+				break
+			}
+			if !done {
+				r.Violation("Y-enqueue", construct, site, "enqueue can return nil without queue.Set having succeeded and without the blob being a known duplicate: the pending blob would not survive a restart")
+			}
 		}
 		if n == 0 {
 			r.Violation("Y-enqueue", FuncKey(enq)+"#nil-return", p.Pos(enq.Pos()), "enqueue has no success return")
@@ -1092,43 +2508,28 @@ func c19YEnqueue(p *Program, r *Reporter, a *c19Anchors) {
 	if a.memAdd == nil {
 		r.Violation("Y-enqueue", "pkg/server#needCopy-add", "?", "no function adds to the in-memory pending set")
 	} else {
-		for _, ri := range Returns(a.memAdd) {
-			if len(ri.Results) != 1 {
-				continue
+		c19ReportDup(p, r, a, a.memAdd)
+		for g := range dupOK {
+			if g != a.memAdd {
+				c19ReportDup(p, r, a, g)
 			}
-			c, ok := ri.Results[0].(*ssa.Const)
-			if !ok || c.Value == nil || c.Value.String() != "false" {
-				continue
-			}
-			present := false
-			for _, f := range FactsAt(ri.Ret.Block()) {
-				ex, ok := originValue(f.Cond).(*ssa.Extract)
-				if !ok || ex.Index != 1 || !f.Val {
-					continue
-				}
-				if lk, ok := ex.Tuple.(*ssa.Lookup); ok && lk.CommaOk {
-					if _, ok := c19FieldOf(lk.X, a.sh, "needCopy"); ok {
-						present = true
-					}
-				}
-			}
-			r.Check(present, "Y-enqueue", FuncKey(a.memAdd)+"#duplicate-means-present", p.Pos(ri.Ret.Pos()),
-				"'false' (duplicate) is returned only under the fact that needCopy already holds the ref",
-				"'false' (duplicate) is returned without needCopy being known to hold the ref: enqueue would skip queue.Set for a blob that is not pending")
 		}
 	}
+
 	// E5: callers of enqueue keep its error
-	for _, c := range p.StaticCallers(enq) {
-		if strings.HasPrefix(c.Fn.Synthetic, "bound method wrapper") || c.Fn.Synthetic != "" {
-			continue
+	for _, enq := range hookedList {
+		for _, c := range p.StaticCallers(enq) {
+			if c.Fn.Synthetic != "" {
+				continue
+			}
+			construct := FuncKey(c.Fn) + "#" + enq.Name() + "#error-kept"
+			if c.Value() == nil {
+				r.Violation("Y-enqueue", construct, p.Pos(c.Pos()), "enqueue started with go/defer: its error is lost")
+				continue
+			}
+			_, _, discarded := ErrValue(c.Value())
+			r.Check(!discarded, "Y-enqueue", construct, p.Pos(c.Pos()), "the error of enqueue is used", "the error of enqueue is discarded")
 		}
-		construct := FuncKey(c.Fn) + "#" + enq.Name() + "#error-kept"
-		if c.Value() == nil {
-			r.Violation("Y-enqueue", construct, p.Pos(c.Pos()), "enqueue started with go/defer: its error is lost")
-			continue
-		}
-		_, _, discarded := ErrValue(c.Value())
-		r.Check(!discarded, "Y-enqueue", construct, p.Pos(c.Pos()), "the error of enqueue is used", "the error of enqueue is discarded")
 	}
 
 	// E4: hubs run hooks and report their errors
@@ -1191,6 +2592,14 @@ func c19HubRule(p *Program, r *Reporter, n *types.Named, notify, addHook *ssa.Fu
 		_, ok = c19FieldOf(ia.X, n, hooksField)
 		return ok
 	}
+	c19HubRunner(p, r, notify, notify, isHookCall, 0)
+}
+
+// c19HubRunner checks that runner (NotifyBlobReceived itself, or a same-package
+// helper it calls and whose error it propagates) calls the registered hooks and
+// returns non-nil when one of them failed. Obligations are reported under
+// NotifyBlobReceived's key.
+func c19HubRunner(p *Program, r *Reporter, top, notify *ssa.Function, isHookCall func(CallSite) bool, depth int) {
 	var hookCalls []CallSite
 	for _, c := range CallsIn(notify, true) {
 		if isHookCall(c) {
@@ -1198,11 +2607,59 @@ func c19HubRule(p *Program, r *Reporter, n *types.Named, notify, addHook *ssa.Fu
 		}
 	}
 	if len(hookCalls) == 0 {
-		r.Violation("Y-enqueue", FuncKey(notify)+"#hook-call", p.Pos(notify.Pos()), "NotifyBlobReceived never calls the registered receive hooks")
+		// the hook loop may have been extracted: a helper that runs the hooks, and
+		// whose error every later possibly-nil return of the runner respects
+		found := false
+		if depth < 2 {
+			for _, c := range CallsIn(notify, false) {
+				g := c.Callee()
+				if c.Value() == nil || g == nil || g.Blocks == nil || g.Synthetic != "" || g.Pkg != notify.Pkg || g == notify {
+					continue
+				}
+				has := false
+				for _, c2 := range CallsIn(g, true) {
+					if isHookCall(c2) {
+						has = true
+					}
+				}
+				if !has {
+					continue
+				}
+				found = true
+				construct := FuncKey(top) + "#hook-error"
+				ev, hasErr, discarded := ErrValue(c.Value())
+				if !hasErr || discarded {
+					r.Violation("Y-enqueue", construct, p.Pos(c.Pos()), "the error of the helper that runs the hooks ("+FuncKey(g)+") is dropped: hook errors never reach the uploader")
+					continue
+				}
+				after := ReachableFrom(c.Instr, nil)
+				bad := ""
+				for _, nr := range MaybeNilErrorReturns(notify) {
+					if !after[nr.Ret] || sameOrigin(nr.Val, ev) {
+						continue
+					}
+					at := ssa.Instruction(nr.Ret)
+					if nr.From != nil && nr.From != nr.Ret.Block() {
+						at = c19LastInstr(nr.From)
+					}
+					if ok, w := SuccessDominates(c.Value(), at); !ok {
+						bad = fmt.Sprintf("nil return at %s: %s", p.Pos(nr.Ret.Pos()), w)
+					}
+				}
+				if bad != "" {
+					r.Violation("Y-enqueue", construct, p.Pos(c.Pos()), "a hook's error can be swallowed after the helper that runs the hooks returned it: "+bad)
+					continue
+				}
+				c19HubRunner(p, r, top, g, isHookCall, depth+1)
+			}
+		}
+		if !found {
+			r.Violation("Y-enqueue", FuncKey(top)+"#hook-call", p.Pos(notify.Pos()), "NotifyBlobReceived never calls the registered receive hooks")
+		}
 		return
 	}
 	for _, hc := range hookCalls {
-		construct := FuncKey(notify) + "#hook-error"
+		construct := FuncKey(top) + "#hook-error"
 		if hc.Value() == nil {
 			r.Violation("Y-enqueue", construct, p.Pos(hc.Pos()), "hook started with go/defer: its error is lost")
 			continue
@@ -1288,14 +2745,38 @@ func c19HubRule(p *Program, r *Reporter, n *types.Named, notify, addHook *ssa.Fu
 }
 
 // c19NotifyCaller: the function that notifies the hub returns the hub's error
-// and notifies the hub of the store that received the blob.
+// and notifies the hub of the store that received the blob. When the
+// notification sits in an unexported helper all of whose callers are known and
+// the hub / storage / SizedRef it uses are the helper's parameters, the
+// questions the helper cannot answer are asked at each caller instead (with the
+// helper call in the role of the notification).
 func c19NotifyCaller(p *Program, r *Reporter, a *c19Anchors, c CallSite) {
-	fn := c.Fn
-	construct := FuncKey(fn) + "#NotifyBlobReceived"
 	if c.Value() == nil {
-		r.Violation("Y-enqueue", construct+"#error", p.Pos(c.Pos()), "NotifyBlobReceived started with go/defer: hook errors never reach the uploader")
+		r.Violation("Y-enqueue", FuncKey(c.Fn)+"#NotifyBlobReceived#error", p.Pos(c.Pos()), "NotifyBlobReceived started with go/defer: hook errors never reach the uploader")
 		return
 	}
+	c19NotifyAt(p, r, a, c, c.Args()[0], nil, c.Args()[1], 0)
+}
+
+func c19ParamIndex(fn *ssa.Function, v ssa.Value) int {
+	prm, ok := originValue(v).(*ssa.Parameter)
+	if !ok || v == nil {
+		return -1
+	}
+	for i, q := range fn.Params {
+		if q == prm {
+			return i
+		}
+	}
+	return -1
+}
+
+// c19NotifyAt: c is the notification (or a call of a helper that performs it and
+// returns its error); hub is the hub value when the storage it belongs to is not
+// known yet, hubOf that storage once known, sbv the SizedRef notified.
+func c19NotifyAt(p *Program, r *Reporter, a *c19Anchors, c CallSite, hub, hubOf, sbv ssa.Value, depth int) {
+	fn := c.Fn
+	construct := FuncKey(fn) + "#NotifyBlobReceived"
 	ev, _, discarded := ErrValue(c.Value())
 	if discarded {
 		r.Violation("Y-enqueue", construct+"#error", p.Pos(c.Pos()), "the error of NotifyBlobReceived is discarded: a failed enqueue is reported to the uploader as success")
@@ -1325,26 +2806,70 @@ func c19NotifyCaller(p *Program, r *Reporter, a *c19Anchors, c CallSite) {
 	r.Check(bad == "", "Y-enqueue", construct+"#error", p.Pos(c.Pos()),
 		"every possibly-nil return after the notification returns its error or is on its err==nil edge", "a hook error can be swallowed: "+bad)
 	// which hub, after which store
-	hubCall, ok := originValue(c.Args()[0]).(*ssa.Call)
-	if !ok || !(CallSite{hubCall.Parent(), hubCall}).IsStatic("perkeep.org/pkg/blobserver", "", "GetHub") {
-		r.Undecided("Y-enqueue", construct+"#hub", p.Pos(c.Pos()), "hub is not obtained from GetHub in the same function")
-		return
-	}
-	hubOf := hubCall.Call.Args[0]
-	okStore := false
-	for _, sc := range CallsIn(fn, false) {
-		dst, _, _, ok := c19StoreCall(sc, a)
-		if !ok || !sameOrigin(dst, hubOf) {
-			continue
+	if hubOf == nil && hub != nil {
+		if hubCall, ok := originValue(hub).(*ssa.Call); ok && (CallSite{hubCall.Parent(), hubCall}).IsStatic("perkeep.org/pkg/blobserver", "", "GetHub") {
+			hubOf, hub = hubCall.Call.Args[0], nil
 		}
-		if ok, _ := SuccessDominates(sc.Value(), c.Instr); ok {
-			if sb := ResultValue(sc.Value(), 0); sb != nil && sameOrigin(c.Args()[1], sb) {
-				okStore = true
+	}
+	okStore := false
+	if hubOf != nil {
+		for _, sc := range CallsIn(fn, false) {
+			dst, _, _, ok := c19StoreCall(sc, a)
+			if !ok || !sameOrigin(dst, hubOf) {
+				continue
+			}
+			if ok, _ := SuccessDominates(sc.Value(), c.Instr); ok {
+				if sb := ResultValue(sc.Value(), 0); sb != nil && sameOrigin(sbv, sb) {
+					okStore = true
+				}
 			}
 		}
 	}
-	r.Check(okStore, "Y-enqueue", construct+"#hub", p.Pos(c.Pos()),
-		"the hub notified is that of the store whose ReceiveBlob just succeeded, with the SizedRef it returned",
+	if okStore {
+		r.OK("Y-enqueue", construct+"#hub", p.Pos(c.Pos()), "the hub notified is that of the store whose ReceiveBlob just succeeded, with the SizedRef it returned")
+		return
+	}
+	// a helper that is handed the hub (or the storage) and the SizedRef: ask its callers
+	iHub, iOf, iSb := -1, -1, c19ParamIndex(fn, sbv)
+	if hub != nil {
+		iHub = c19ParamIndex(fn, hub)
+	}
+	if hubOf != nil {
+		iOf = c19ParamIndex(fn, hubOf)
+	}
+	helper := fn.Parent() == nil && !token.IsExported(fn.Name()) && depth < 3 && len(p.FuncValueUses(fn)) == 0 && len(p.InvokeSites(fn)) == 0 &&
+		iSb >= 0 && (iHub >= 0 || iOf >= 0)
+	var callers []CallSite
+	if helper {
+		for _, cc := range p.StaticCallers(fn) {
+			if cc.Fn.Synthetic != "" || cc.Value() == nil {
+				helper = false
+			}
+			callers = append(callers, cc)
+		}
+	}
+	if helper && len(callers) > 0 {
+		for _, cc := range callers {
+			args := cc.Args()
+			var h2, of2 ssa.Value
+			if iHub >= 0 && iHub < len(args) {
+				h2 = args[iHub]
+			}
+			if iOf >= 0 && iOf < len(args) {
+				of2 = args[iOf]
+			}
+			if iSb >= len(args) {
+				continue
+			}
+			c19NotifyAt(p, r, a, cc, h2, of2, args[iSb], depth+1)
+		}
+		return
+	}
+	if hubOf == nil {
+		r.Undecided("Y-enqueue", construct+"#hub", p.Pos(c.Pos()), "hub is not obtained from GetHub in the same function")
+		return
+	}
+	r.Violation("Y-enqueue", construct+"#hub", p.Pos(c.Pos()),
 		"the notification is not for (the hub of) the store whose ReceiveBlob just succeeded, or not with the SizedRef it returned")
 }
 
@@ -1357,158 +2882,519 @@ var c19ReloadExceptions = map[string]string{
 	"pkg/server.NewSyncHandler": "exported library constructor that is given a queue by its caller; it has no caller in the module (only tests, with a fresh in-memory queue) — the exception lapses as soon as module code calls it",
 }
 
-func c19YReload(p *Program, r *Reporter, a *c19Anchors) {
-	builders := c19Builders(p, a)
-	for _, b := range builders {
-		// Y-start
-		startsLoop := func(in ssa.Instruction) bool {
-			g, ok := in.(*ssa.Go)
-			if !ok {
-				return false
-			}
-			c := CallSite{in.Parent(), g}
-			if c.Callee() == a.syncLoop {
-				return sameOrigin(c.Args()[0], b.sh)
-			}
-			if l := ClosureOf(c); l != nil && len(l.Blocks) > 0 {
-				isLoop := func(x ssa.Instruction) bool {
-					ci, ok := x.(ssa.CallInstruction)
-					return ok && (CallSite{x.Parent(), ci}).Callee() == a.syncLoop && c19FlowsFrom(ci.Common().Args[0], b.sh)
-				}
-				first := l.Blocks[0].Instrs[0]
-				if isLoop(first) {
-					return true
-				}
-				return len(LeakingExits(PathQuery{Start: first, Stop: isLoop, IgnorePanics: true})) == 0
-			}
-			return false
+// c19UpOrigin follows a value to where it was made: through single-store locals
+// and captured variables (originValue) and, when it is a parameter of an
+// unexported top-level function that has exactly one call/go/defer site in the
+// module and is never used as a value, to the argument at that site (bound 3) —
+// a function literal turned into a method receives as parameters what the
+// literal captured.
+func c19UpOrigin(p *Program, v ssa.Value) ssa.Value {
+	for i := 0; i < 4 && v != nil; i++ {
+		v = originValue(v)
+		prm, ok := v.(*ssa.Parameter)
+		if !ok {
+			return v
 		}
-		leaks := c19AllPaths(b, startsLoop)
-		r.Check(len(leaks) == 0, "Y-start", FuncKey(b.g)+"#copy-loop", p.Pos(b.site.Pos()),
-			"every path handing the handler out has started its copy loop (go syncLoop, or a go literal all of whose paths reach syncLoop)",
-			"a handler is handed out whose copy loop was never started (queued blobs are never copied): "+c19LeakText(p, leaks))
-
-		// Y-reload
-		construct := FuncKey(b.g) + "#reload"
-		if why, ok := c19ReloadExceptions[FuncKey(b.g)]; ok {
-			n := 0
-			for _, c := range p.StaticCallers(b.g) {
-				if !IsTestSupportPkg(RelPkg(c.Fn.Pkg.Pkg)) {
-					n++
-				}
-			}
-			n += len(p.FuncValueUses(b.g))
-			r.Check(n == 0, "Y-reload", construct, p.Pos(b.site.Pos()), "exception (re-checked: no caller in the module): "+why,
-				fmt.Sprintf("%s builds a handler over a caller-supplied queue without reloading it and now has %d use(s) in the module: rows pending from a previous run are never copied", FuncKey(b.g), n))
-			continue
+		F := prm.Parent()
+		if F.Parent() != nil || token.IsExported(F.Name()) || len(p.FuncValueUses(F)) > 0 || len(p.InvokeSites(F)) > 0 {
+			return v
 		}
-		isReload := func(in ssa.Instruction) bool {
-			call, ok := in.(*ssa.Call)
-			return ok && (CallSite{in.Parent(), call}).Callee() == a.reload && sameOrigin(call.Call.Args[0], b.sh)
-		}
-		leaks = c19AllPaths(b, isReload)
-		if len(leaks) > 0 {
-			r.Violation("Y-reload", construct, p.Pos(b.site.Pos()), "a handler is handed out without the persistent queue having been read into memory (rows pending from a previous run are never copied): "+c19LeakText(p, leaks))
-			continue
-		}
-		bad := ""
-		for _, c := range CallsIn(b.g, false) {
-			if !isReload(c.Instr) {
-				continue
+		var site *CallSite
+		n := 0
+		for _, c := range p.StaticCallers(F) {
+			if c.Fn.Synthetic != "" {
+				return v
 			}
-			ev, _, discarded := ErrValue(c.Value())
-			if discarded {
-				bad = "the error of readQueueToMemory is discarded"
-				break
-			}
-			fl := LeakingExits(PathQuery{
-				Start:  c.Instr,
-				Stop:   func(ssa.Instruction) bool { return false },
-				Assume: c19AssumeFailed(ev),
-				ExitOK: func(exit ssa.Instruction) bool {
-					ret, ok := exit.(*ssa.Return)
-					return ok && !c19HandsOut(ret, b.sh)
-				},
-				IgnorePanics: true,
-			})
-			if len(fl) > 0 {
-				bad = "a handler is handed out although reading the queue failed: " + c19LeakText(p, fl)
+			c := c
+			site = &c
+			n++
+		}
+		if n != 1 {
+			return v
+		}
+		idx := -1
+		for j, q := range F.Params {
+			if q == prm {
+				idx = j
 			}
 		}
-		r.Check(bad == "", "Y-reload", construct, p.Pos(b.site.Pos()),
-			"every path handing the handler out passed readQueueToMemory on it, and none does when it failed", bad)
+		args := site.Args()
+		if idx < 0 || idx >= len(args) {
+			return v
+		}
+		v = args[idx]
 	}
+	return originValue(v)
+}
 
-	// inside the reload function
+func c19YReload(p *Program, r *Reporter, a *c19Anchors) {
+	x := a.x
+	// the queue enumerator, by role: the function that encloses queue.Find
 	var qe *ssa.Function
 	for _, f := range a.qFind {
 		qe = TopFunc(f.Fn)
 	}
-	if qe == nil {
-		r.Violation("Y-reload", "pkg/server#queue.Find", "?", "nothing ever reads the persistent queue")
-		return
-	}
-	rq := a.reload
-	var qeCall *ssa.Call
-	for _, c := range CallsIn(rq, true) {
-		if c.Callee() == qe && c.Value() != nil {
-			qeCall = c.Value()
+	// its output parameter: the channel of blob.SizedRef it can send on
+	qeDst := -1
+	if qe != nil {
+		for i, prm := range qe.Params {
+			if ch, ok := prm.Type().Underlying().(*types.Chan); ok && ch.Dir() != types.RecvOnly && IsNamed(ch.Elem(), "perkeep.org/pkg/blob", "SizedRef") {
+				qeDst = i
+			}
 		}
 	}
-	if qeCall == nil {
-		r.Violation("Y-reload", FuncKey(rq)+"#enumerates-queue", p.Pos(rq.Pos()), "readQueueToMemory does not call the queue enumerator "+FuncKey(qe))
-		return
+	// reload units, by role: the functions that make the channel the queue
+	// enumerator sends on (and so consume what it produces)
+	type unit struct {
+		fn     *ssa.Function
+		ch     ssa.Value // the element channel (MakeChan in fn); nil when it could not be identified
+		launch *ssa.Call // the call of the queue enumerator
 	}
-	dstChan := originValue(qeCall.Call.Args[1])
-	fromChan := func(ch ssa.Value) func(ssa.Value) bool {
-		return func(x ssa.Value) bool {
-			u, ok := x.(*ssa.UnOp)
-			return ok && u.Op == token.ARROW && originValue(u.X) == ch
-		}
-	}
-	fed := false
-	if a.memAdd != nil {
-		for _, c := range CallsIn(rq, true) {
-			if c.Callee() != a.memAdd {
+	var units []unit
+	isUnit := map[*ssa.Function]bool{}
+	if qe != nil && qeDst >= 0 {
+		for _, c := range p.StaticCallers(qe) {
+			if c.Fn.Synthetic != "" || c.Fn.Pkg == nil || IsTestSupportPkg(RelPkg(c.Fn.Pkg.Pkg)) || qeDst >= len(c.Args()) {
 				continue
 			}
-			for _, arg := range c.Args()[1:] {
-				if c19Flows(arg, fromChan(dstChan)) {
-					fed = true
+			construct := FuncKey(c.Fn) + "#enumerates-queue"
+			if c.Value() == nil {
+				r.Undecided("Y-reload", construct, p.Pos(c.Pos()), "the queue enumerator is started directly by go/defer: its result is not followed")
+				continue
+			}
+			mk, ok := c19UpOrigin(p, c.Args()[qeDst]).(*ssa.MakeChan)
+			if !ok {
+				// the channel variable is reassigned, or comes from somewhere that is not followed:
+				// the function that launches the enumerator is taken as the reload function,
+				// and what it does with the elements is reported as not followed
+				u := unit{TopFunc(c.Fn), nil, c.Value()}
+				units = append(units, u)
+				isUnit[u.fn] = true
+				continue
+			}
+			u := unit{TopFunc(mk.Parent()), mk, c.Value()}
+			units = append(units, u)
+			isUnit[u.fn] = true
+		}
+	}
+	sort.SliceStable(units, func(i, j int) bool { return FuncKey(units[i].fn) < FuncKey(units[j].fn) })
+
+	// reloadDone: the plain call c (in a builder) reloads the queue of handler sh: it
+	// calls a reload unit on sh, or a helper at whose every successful return such
+	// a call has succeeded
+	reloadDone := func(c CallSite, sh ssa.Value) bool {
+		if c.Value() == nil {
+			return false
+		}
+		onHandler := func(e CallSite, fr *c19Frame, rootFr *c19Frame) bool {
+			if !isUnit[e.Callee()] {
+				return false
+			}
+			for _, arg := range e.Args() {
+				if x.same(arg, fr, sh, rootFr) {
+					return true
+				}
+			}
+			return false
+		}
+		root := x.root(c.Fn)
+		if onHandler(c, root, root) {
+			return true
+		}
+		if nf := x.enter(c, root); nf != nil {
+			for _, e := range x.insideOf(nf, true).evs {
+				if e.c.Value() != nil && onHandler(e.c, e.fr, root) {
+					return true
 				}
 			}
 		}
+		return false
 	}
-	r.Check(fed, "Y-reload", FuncKey(rq)+"#feeds-memory", p.Pos(qeCall.Pos()),
-		"each element received from the enumerator's channel is handed to the in-memory add",
-		"the elements produced by the queue enumerator do not reach the in-memory pending set")
-	errOK := true
-	detail := ""
-	for _, ri := range Returns(rq) {
-		v := ri.Results[len(ri.Results)-1]
-		if sameOrigin(v, qeCall) {
-			continue
+
+	// Y-start: the copy loop is started. runsLoop: every path through g reaches a
+	// call of the copy loop on the handler.
+	var runsLoop func(g *ssa.Function, sh ssa.Value, depth int) bool
+	loopCall := func(in ssa.Instruction, sh ssa.Value, depth int) bool {
+		call, ok := in.(*ssa.Call)
+		if !ok {
+			return false
 		}
-		okThis := false
-		if u, ok := originValue(v).(*ssa.UnOp); ok && u.Op == token.ARROW {
-			ch := originValue(u.X)
-			for _, b := range qeCall.Parent().Blocks {
+		c := CallSite{in.Parent(), call}
+		g := c.Callee()
+		if g == nil {
+			return false
+		}
+		if g == a.syncLoop {
+			return c19FlowsFrom(call.Call.Args[0], sh)
+		}
+		if g.Blocks == nil || g.Synthetic != "" || g.Pkg != in.Parent().Pkg {
+			return false
+		}
+		var sh2 ssa.Value
+		for i, arg := range c.Args() {
+			if i < len(g.Params) && c19FlowsFrom(arg, sh) {
+				sh2 = g.Params[i]
+			}
+		}
+		if sh2 == nil && g.Parent() != nil {
+			sh2 = sh
+		}
+		return sh2 != nil && runsLoop(g, sh2, depth+1)
+	}
+	runsLoop = func(g *ssa.Function, sh ssa.Value, depth int) bool {
+		if g == nil || len(g.Blocks) == 0 || depth > 3 {
+			return false
+		}
+		stop := func(in ssa.Instruction) bool { return loopCall(in, sh, depth) }
+		first := g.Blocks[0].Instrs[0]
+		if stop(first) {
+			return true
+		}
+		return len(LeakingExits(PathQuery{Start: first, Stop: stop, IgnorePanics: true})) == 0
+	}
+	startsLoop := c19DeepStop(func(in ssa.Instruction, sh, _ ssa.Value) bool {
+		g, ok := in.(*ssa.Go)
+		if !ok {
+			return false
+		}
+		c := CallSite{in.Parent(), g}
+		callee := c.Callee()
+		if callee == nil {
+			return false
+		}
+		if callee == a.syncLoop {
+			return sameOrigin(c.Args()[0], sh)
+		}
+		if callee.Parent() != nil {
+			return runsLoop(callee, sh, 0) // a literal sees the handler through its captured variables
+		}
+		if callee.Blocks == nil || callee.Synthetic != "" || callee.Pkg != in.Parent().Pkg {
+			return false
+		}
+		for i, arg := range c.Args() {
+			if i < len(callee.Params) && sameOrigin(arg, sh) && runsLoop(callee, callee.Params[i], 0) {
+				return true
+			}
+		}
+		return false
+	})
+	isReload := c19DeepStop(func(in ssa.Instruction, sh, _ ssa.Value) bool {
+		call, ok := in.(*ssa.Call)
+		return ok && reloadDone(CallSite{in.Parent(), call}, sh)
+	})
+
+	// inlineWaits: when the reload function was inlined into builder g (g itself makes
+	// the channel the queue enumerator sends on), the reload of handler sh is complete
+	// where g receives the enumerator's result
+	inlineWaits := func(g *ssa.Function, sh ssa.Value) []*ssa.UnOp {
+		var out []*ssa.UnOp
+		for _, u := range units {
+			if u.fn != g || u.launch == nil {
+				continue
+			}
+			onSh := false
+			for _, arg := range u.launch.Call.Args {
+				if c19FlowsFrom(arg, sh) {
+					onSh = true
+				}
+			}
+			if !onSh {
+				continue
+			}
+			for _, b := range u.launch.Parent().Blocks {
 				for _, in := range b.Instrs {
-					if s, ok := in.(*ssa.Send); ok && originValue(s.Chan) == ch && sameOrigin(s.X, qeCall) {
-						okThis = true
+					snd, ok := in.(*ssa.Send)
+					if !ok || !sameOrigin(snd.X, u.launch) {
+						continue
+					}
+					ch := c19UpOrigin(p, snd.Chan)
+					for _, gb := range g.Blocks {
+						for _, gi := range gb.Instrs {
+							if rcv, ok := gi.(*ssa.UnOp); ok && rcv.Op == token.ARROW && !rcv.CommaOk && originValue(rcv.X) == ch {
+								out = append(out, rcv)
+							}
+						}
 					}
 				}
 			}
 		}
-		if !okThis {
-			errOK = false
-			detail = "return at " + p.Pos(ri.Ret.Pos()) + " does not return the queue enumerator's error"
-		}
+		return out
 	}
-	r.Check(errOK, "Y-reload", FuncKey(rq)+"#returns-enum-error", p.Pos(rq.Pos()),
-		"every return yields the enumerator's error (directly or through the channel it is sent on)", "a failed queue scan would be reported as a complete reload: "+detail)
+	builderFns := map[*ssa.Function]bool{}
+
+	for _, b0 := range c19Builders(p, a) {
+		c19Discharge(p, b0,
+			func(b c19Builder) func(ssa.Instruction) bool {
+				return func(in ssa.Instruction) bool { return startsLoop(in, b.sh, b.from) }
+			},
+			func(b c19Builder, leaks []Leak) {
+				r.Check(len(leaks) == 0, "Y-start", FuncKey(b.g)+"#copy-loop", p.Pos(b.start.Pos()),
+					"every path handing the handler out has started its copy loop (go syncLoop, or a go literal/function all of whose paths reach syncLoop)",
+					"a handler is handed out whose copy loop was never started (queued blobs are never copied): "+c19LeakText(p, leaks))
+			})
+		c19Discharge(p, b0,
+			func(b c19Builder) func(ssa.Instruction) bool {
+				waits := map[ssa.Instruction]bool{}
+				for _, w := range inlineWaits(b.g, b.sh) {
+					waits[w] = true
+				}
+				return func(in ssa.Instruction) bool { return waits[in] || isReload(in, b.sh, b.from) }
+			},
+			func(b c19Builder, leaks []Leak) {
+				construct := FuncKey(b.g) + "#reload"
+				site := p.Pos(b.start.Pos())
+				builderFns[b.g] = true
+				if len(leaks) > 0 {
+					if why, ok := c19ReloadExceptions[FuncKey(b.g)]; ok {
+						n := 0
+						for _, c := range p.StaticCallers(b.g) {
+							if !IsTestSupportPkg(RelPkg(c.Fn.Pkg.Pkg)) {
+								n++
+							}
+						}
+						n += len(p.FuncValueUses(b.g))
+						r.Check(n == 0, "Y-reload", construct, site, "exception (re-checked: no caller in the module): "+why,
+							fmt.Sprintf("%s builds a handler over a caller-supplied queue without reloading it and now has %d use(s) in the module: rows pending from a previous run are never copied", FuncKey(b.g), n))
+						return
+					}
+					r.Violation("Y-reload", construct, site, "a handler is handed out without the persistent queue having been read into memory (rows pending from a previous run are never copied): "+c19LeakText(p, leaks))
+					return
+				}
+				bad := ""
+				for _, c := range CallsIn(b.g, false) {
+					if c.Value() == nil || !reloadDone(c, b.sh) {
+						continue
+					}
+					ev, _, discarded := ErrValue(c.Value())
+					if discarded {
+						bad = "the error of the queue reload is discarded"
+						break
+					}
+					fl := LeakingExits(PathQuery{
+						Start:  c.Instr,
+						Stop:   func(ssa.Instruction) bool { return false },
+						Assume: c19AssumeFailed(ev),
+						ExitOK: func(exit ssa.Instruction) bool {
+							ret, ok := exit.(*ssa.Return)
+							return ok && !c19HandsOut(ret, b.sh)
+						},
+						IgnorePanics: true,
+					})
+					if len(fl) > 0 {
+						bad = "a handler is handed out although reading the queue failed: " + c19LeakText(p, fl)
+					}
+				}
+				for _, w := range inlineWaits(b.g, b.sh) {
+					fl := LeakingExits(PathQuery{
+						Start:  w,
+						Stop:   func(ssa.Instruction) bool { return false },
+						Assume: c19AssumeFailed(w),
+						ExitOK: func(exit ssa.Instruction) bool {
+							ret, ok := exit.(*ssa.Return)
+							return ok && !c19HandsOut(ret, b.sh)
+						},
+						IgnorePanics: true,
+					})
+					if len(fl) > 0 {
+						bad = "a handler is handed out although the queue enumerator reported an error: " + c19LeakText(p, fl)
+					}
+				}
+				r.Check(bad == "", "Y-reload", construct, site,
+					"every path handing the handler out passed the queue reload (readQueueToMemory) on it, and none does when it failed", bad)
+			})
+	}
+
+	// inside the reload function(s)
+	if qe == nil {
+		r.Violation("Y-reload", "pkg/server#queue.Find", "?", "nothing ever reads the persistent queue")
+		return
+	}
+	if len(units) == 0 {
+		r.Violation("Y-reload", FuncKey(qe)+"#enumerates-queue", p.Pos(qe.Pos()), "no function consumes the queue enumerator "+FuncKey(qe)+": the persistent queue is never read into memory")
+	}
+	for _, u := range units {
+		rq, qeCall := u.fn, u.launch
+		root := x.root(rq)
+		if u.ch == nil {
+			r.Undecided("Y-reload", FuncKey(rq)+"#feeds-memory", p.Pos(qeCall.Pos()), "the channel handed to the queue enumerator is not a single channel value made by its consumer (it is reassigned, or comes through something that is not followed): whether every element produced reaches the in-memory pending set cannot be followed")
+			continue
+		}
+		fromChan := func(v ssa.Value, fr *c19Frame) bool {
+			un, ok := v.(*ssa.UnOp)
+			if !ok || un.Op != token.ARROW {
+				return false
+			}
+			o, of := x.origin(un.X, fr)
+			_ = of
+			return o == ssa.Value(u.ch)
+		}
+		fed := false
+		skipped := ""
+		if a.memAdd != nil {
+			var visit func(fr *c19Frame, depth int)
+			visit = func(fr *c19Frame, depth int) {
+				// receive loops over the element channel (`for sb := range ch` / `sb, ok := <-ch`):
+				// on every path from the loop body back to the next receive the element has
+				// been handed to the in-memory add
+				for _, b := range fr.callee.Blocks {
+					for _, in := range b.Instrs {
+						rcv, ok := in.(*ssa.UnOp)
+						if !ok || rcv.Op != token.ARROW || !rcv.CommaOk {
+							continue
+						}
+						if o, _ := x.origin(rcv.X, fr); o != ssa.Value(u.ch) {
+							continue
+						}
+						ifi, ok := c19LastInstr(b).(*ssa.If)
+						if !ok {
+							continue
+						}
+						ex, ok := ifi.Cond.(*ssa.Extract)
+						if !ok || ex.Tuple != ssa.Value(rcv) || ex.Index != 1 {
+							continue
+						}
+						var elem ssa.Value
+						if refs := rcv.Referrers(); refs != nil {
+							for _, ru := range *refs {
+								if e0, ok := ru.(*ssa.Extract); ok && e0.Index == 0 {
+									elem = e0
+								}
+							}
+						}
+						adds := func(x2 ssa.Instruction) bool {
+							call, ok := x2.(*ssa.Call)
+							if !ok || elem == nil || !c19Adds(a, (CallSite{x2.Parent(), call}).Callee(), 0) {
+								return false
+							}
+							for _, arg := range call.Call.Args {
+								if c19FlowsFrom(arg, elem) {
+									return true
+								}
+							}
+							return false
+						}
+						seenB := map[*ssa.BasicBlock]bool{}
+						var walkB func(bb *ssa.BasicBlock, via []*ssa.BasicBlock)
+						walkB = func(bb *ssa.BasicBlock, via []*ssa.BasicBlock) {
+							if skipped != "" {
+								return
+							}
+							if bb == b {
+								skipped = "next receive at " + p.Pos(rcv.Pos()) + " reached via blocks " + blockNames(via) + " in " + FuncKey(fr.callee)
+								return
+							}
+							if seenB[bb] {
+								return
+							}
+							seenB[bb] = true
+							via = append(via, bb)
+							for _, x2 := range bb.Instrs {
+								if adds(x2) {
+									return
+								}
+								switch x2.(type) {
+								case *ssa.Return, *ssa.Panic:
+									return
+								}
+							}
+							for _, sc := range bb.Succs {
+								walkB(sc, via)
+							}
+						}
+						walkB(b.Succs[0], nil)
+					}
+				}
+				for _, c := range CallsIn(fr.callee, true) {
+					g := c.Callee()
+					if g == nil {
+						continue
+					}
+					if c19Adds(a, g, 0) {
+						for _, arg := range c.Args() {
+							if x.flows(arg, fr, fromChan) {
+								fed = true
+							}
+						}
+					}
+					if c.Fn == fr.callee {
+						if nf := x.enter(c, fr); nf != nil && depth < c19MaxDepth {
+							visit(nf, depth+1)
+						}
+					}
+				}
+			}
+			visit(root, 0)
+		}
+		switch {
+		case !fed:
+			r.Violation("Y-reload", FuncKey(rq)+"#feeds-memory", p.Pos(qeCall.Pos()), "the elements produced by the queue enumerator do not reach the in-memory pending set")
+		case skipped != "":
+			r.Violation("Y-reload", FuncKey(rq)+"#feeds-memory", p.Pos(qeCall.Pos()), "an element received from the queue enumerator can be dropped without being handed to the in-memory add ("+skipped+"): that pending blob is not copied after a restart")
+		default:
+			r.OK("Y-reload", FuncKey(rq)+"#feeds-memory", p.Pos(qeCall.Pos()), "each element received from the enumerator's channel is handed to the in-memory add before the next one is received")
+		}
+		if builderFns[rq] {
+			// the reload is inlined into a builder: "the enumerator's error is returned" is the
+			// builder's "no handler is handed out when the reload failed", checked above
+			continue
+		}
+		errOK := true
+		detail := ""
+		for _, ri := range Returns(rq) {
+			if len(ri.Results) == 0 {
+				errOK, detail = false, "the reload function returns no error"
+				continue
+			}
+			v := ri.Results[len(ri.Results)-1]
+			if sameOrigin(v, qeCall) {
+				continue
+			}
+			okThis := false
+			if un, ok := originValue(v).(*ssa.UnOp); ok && un.Op == token.ARROW {
+				ch := originValue(un.X)
+				for _, b := range qeCall.Parent().Blocks {
+					for _, in := range b.Instrs {
+						if s, ok := in.(*ssa.Send); ok && c19UpOrigin(p, s.Chan) == ch && sameOrigin(s.X, qeCall) {
+							okThis = true
+						}
+					}
+				}
+			}
+			if !okThis {
+				errOK = false
+				detail = "return at " + p.Pos(ri.Ret.Pos()) + " does not return the queue enumerator's error"
+			}
+		}
+		r.Check(errOK, "Y-reload", FuncKey(rq)+"#returns-enum-error", p.Pos(rq.Pos()),
+			"every return yields the enumerator's error (directly or through the channel it is sent on)", "a failed queue scan would be reported as a complete reload: "+detail)
+	}
 
 	c19EnumeratorRules(p, r, a, qe)
+}
+
+// c19Adds: g puts a blob it is handed into the in-memory pending set: it is the
+// function that updates needCopy, or hands one of its own parameters to one.
+func c19Adds(a *c19Anchors, g *ssa.Function, depth int) bool {
+	if g == nil || a.memAdd == nil {
+		return false
+	}
+	if g == a.memAdd {
+		return true
+	}
+	if g.Blocks == nil || depth > 2 || g.Pkg != a.memAdd.Pkg {
+		return false
+	}
+	for _, c := range CallsIn(g, false) {
+		if c.Value() == nil || !c19Adds(a, c.Callee(), depth+1) {
+			continue
+		}
+		for _, arg := range c.Args() {
+			if _, ok := originValue(arg).(*ssa.Parameter); ok && IsNamed(arg.Type(), "perkeep.org/pkg/blob", "SizedRef") {
+				return true
+			}
+		}
+	}
+	return false
 }
 
 func c19EnumeratorRules(p *Program, r *Reporter, a *c19Anchors, qe *ssa.Function) {
@@ -1550,22 +3436,36 @@ func c19EnumeratorRules(p *Program, r *Reporter, a *c19Anchors, qe *ssa.Function
 			continue
 		}
 		var body *ssa.BasicBlock
-		if ifi, ok := c19LastInstr(next.Block()).(*ssa.If); ok && originValue(ifi.Cond) == ssa.Value(next) {
-			body = next.Block().Succs[0]
+		if ifi, ok := c19LastInstr(next.Block()).(*ssa.If); ok {
+			cond, pos := ifi.Cond, true
+			for {
+				if u, ok := cond.(*ssa.UnOp); ok && u.Op == token.NOT {
+					cond, pos = u.X, !pos
+					continue
+				}
+				break
+			}
+			if originValue(cond) == ssa.Value(next) {
+				body = next.Block().Succs[0]
+				if !pos {
+					body = next.Block().Succs[1] // `if !it.Next() { break }`
+				}
+			}
 		}
 		if body == nil {
 			r.Undecided("Y-reload", FuncKey(qe)+"#rows", p.Pos(next.Pos()), "loop shape not recognised (Next() is not the loop condition)")
 			continue
 		}
+		// the parse calls of the enumerator's effective body (the row parser may be a helper)
 		var parseErrs []ssa.Value
-		var parseOKs []ssa.Value
-		for _, c := range CallsIn(qe, false) {
+		parseOKs := map[ssa.Value]bool{}
+		a.x.effectiveCalls(a.x.root(qe), func(c CallSite, _ *c19Frame) {
 			if c.Value() == nil {
-				continue
+				return
 			}
 			if c.IsStatic("perkeep.org/pkg/blob", "", "Parse") {
 				if v := ResultValue(c.Value(), 1); v != nil {
-					parseOKs = append(parseOKs, v)
+					parseOKs[v] = true
 				}
 			}
 			if c.IsStatic("strconv", "", "ParseUint") || c.IsStatic("strconv", "", "ParseInt") || c.IsStatic("strconv", "", "Atoi") {
@@ -1573,8 +3473,114 @@ func c19EnumeratorRules(p *Program, r *Reporter, a *c19Anchors, qe *ssa.Function
 					parseErrs = append(parseErrs, ev)
 				}
 			}
+		})
+		// assume: the truth of a branch condition for a row that parses. A result of a
+		// same-package helper counts as "parsed" when, on the paths of the helper that
+		// a parsing row can take, every return yields true / a nil error there.
+		var assume func(cond ssa.Value) (bool, bool)
+		goodMemo := map[[2]any]int{}
+		var goodResult func(h *ssa.Function, idx int) bool
+		helperResult := func(v ssa.Value) (*ssa.Function, int, bool) {
+			var call *ssa.Call
+			idx := 0
+			switch t := originValue(v).(type) {
+			case *ssa.Call:
+				call = t
+			case *ssa.Extract:
+				call, _ = t.Tuple.(*ssa.Call)
+				idx = t.Index
+			}
+			if call == nil {
+				return nil, 0, false
+			}
+			h := (CallSite{call.Parent(), call}).Callee()
+			if h == nil || h.Blocks == nil || h.Synthetic != "" || h.Pkg != qe.Pkg {
+				return nil, 0, false
+			}
+			return h, idx, true
 		}
-		assume := func(cond ssa.Value) (bool, bool) {
+		goodResult = func(h *ssa.Function, idx int) bool {
+			k := [2]any{h, idx}
+			switch goodMemo[k] {
+			case 1:
+				return false
+			case 2:
+				return true
+			case 3:
+				return false
+			}
+			goodMemo[k] = 1
+			ok := true
+			n := 0
+			seenB := map[*ssa.BasicBlock]bool{}
+			var walkH func(b *ssa.BasicBlock)
+			walkH = func(b *ssa.BasicBlock) {
+				if seenB[b] || !ok {
+					return
+				}
+				seenB[b] = true
+				switch t := c19LastInstr(b).(type) {
+				case *ssa.Return:
+					n++
+					if idx >= len(t.Results) {
+						ok = false
+						return
+					}
+					res := resolveReturnValue(t.Results[idx], t)
+					switch {
+					case isErrorType(res.Type()):
+						good := IsNilConst(res)
+						for _, ev := range parseErrs {
+							if sameOrigin(res, ev) {
+								good = true
+							}
+						}
+						if h2, i2, isH := helperResult(res); isH && goodResult(h2, i2) {
+							good = true
+						}
+						if !good {
+							ok = false
+						}
+					default:
+						c, isConst := res.(*ssa.Const)
+						good := isConst && c.Value != nil && c.Value.String() == "true"
+						if parseOKs[originValue(res)] {
+							good = true
+						}
+						if h2, i2, isH := helperResult(res); isH && goodResult(h2, i2) {
+							good = true
+						}
+						if !good {
+							ok = false
+						}
+					}
+					return
+				case *ssa.If:
+					if k, v := assume(t.Cond); k {
+						if v {
+							walkH(b.Succs[0])
+						} else {
+							walkH(b.Succs[1])
+						}
+						return
+					}
+				}
+				for _, sc := range b.Succs {
+					walkH(sc)
+				}
+			}
+			walkH(h.Blocks[0])
+			if n == 0 {
+				ok = false
+			}
+			if ok {
+				goodMemo[k] = 2
+			} else {
+				goodMemo[k] = 3
+			}
+			return ok
+		}
+		assume = func(cond ssa.Value) (bool, bool) {
 			val := true
 			for {
 				if u, ok := cond.(*ssa.UnOp); ok && u.Op == token.NOT {
@@ -1583,15 +3589,27 @@ func c19EnumeratorRules(p *Program, r *Reporter, a *c19Anchors, qe *ssa.Function
 				}
 				break
 			}
-			for _, okv := range parseOKs {
-				if originValue(cond) == okv {
-					return true, val
-				}
+			if parseOKs[originValue(cond)] {
+				return true, val
 			}
 			for _, ev := range parseErrs {
 				if k, isNil := condSaysNil(cond, true, ev); k {
 					// parse succeeded: ev is nil
 					return true, isNil == val
+				}
+			}
+			if h, idx, ok := helperResult(cond); ok && !isErrorType(cond.Type()) && goodResult(h, idx) {
+				return true, val
+			}
+			if bo, ok := cond.(*ssa.BinOp); ok && (bo.Op == token.EQL || bo.Op == token.NEQ) {
+				other := bo.X
+				if IsNilConst(bo.X) {
+					other = bo.Y
+				} else if !IsNilConst(bo.Y) {
+					return false, false
+				}
+				if h, idx, ok := helperResult(other); ok && isErrorType(other.Type()) && goodResult(h, idx) {
+					return true, (bo.Op == token.EQL) == val
 				}
 			}
 			return false, false
@@ -1667,37 +3685,61 @@ func c19YCodec(p *Program, r *Reporter, a *c19Anchors) {
 		return ok && b.Info()&types.IsInteger != 0
 	}
 	var keyFn *ssa.Function
+	x := a.x
+	setInstr := map[ssa.Instruction]bool{}
 	for _, s := range a.qSet {
-		enq := TopFunc(s.Fn)
-		construct := FuncKey(enq) + "#row-writer"
+		setInstr[s.Instr] = true
+	}
+	// the writer is looked at from the registered hook (enqueue): the insertion
+	// itself may sit in a helper that is handed the ref / size / rendered strings
+	writers := a.enqs
+	if len(writers) == 0 {
+		for _, s := range a.qSet {
+			writers = append(writers, TopFunc(s.Fn))
+		}
+	}
+	seenSet := map[ssa.Instruction]bool{}
+	for _, enq := range writers {
+		root := x.root(enq)
 		job := c19ParamOfType(enq, a.sizedRef)
-		if job == nil || !c19StableParam(enq, job) {
-			r.Undecided("Y-codec", construct, p.Pos(s.Pos()), "enqueue has no single, never-reassigned SizedRef parameter")
-			continue
-		}
-		bad := ""
-		kc, ok := originValue(s.Args()[1]).(*ssa.Call)
-		if !ok || !(CallSite{kc.Parent(), kc}).IsStatic("perkeep.org/pkg/blob", "Ref", "String") || c19Path(kc.Call.Args[0]) != job.Name()+".Ref" {
-			bad = "the row key is not (blob.Ref).String() of the enqueued ref (the reload parses keys with blob.Parse)"
-		} else {
-			keyFn = kc.Call.StaticCallee()
-		}
-		vc, ok := originValue(s.Args()[2]).(*ssa.Call)
-		if bad == "" {
-			switch {
-			case !ok:
-				bad = "the row value is not produced by a decimal formatter"
-			case (CallSite{vc.Parent(), vc}).IsStatic("fmt", "", "Sprint"):
-				var elems []ssa.Value
-				if sl, ok := vc.Call.Args[0].(*ssa.Slice); ok {
-					if al, ok := sl.X.(*ssa.Alloc); ok {
-						if refs := al.Referrers(); refs != nil {
-							for _, u := range *refs {
-								if ia, ok := u.(*ssa.IndexAddr); ok {
-									if rr := ia.Referrers(); rr != nil {
-										for _, x := range *rr {
-											if st, ok := x.(*ssa.Store); ok {
-												elems = append(elems, st.Val)
+		x.effectiveCalls(root, func(s CallSite, fr *c19Frame) {
+			if !setInstr[s.Instr] || seenSet[s.Instr] {
+				return
+			}
+			seenSet[s.Instr] = true
+			construct := FuncKey(enq) + "#row-writer"
+			if job == nil || !c19StableParam(enq, job) {
+				r.Undecided("Y-codec", construct, p.Pos(s.Pos()), "enqueue has no single, never-reassigned SizedRef parameter")
+				return
+			}
+			refPath, sizePath := x.path(job, root)+".Ref", x.path(job, root)+".Size"
+			isSize := func(v ssa.Value, f *c19Frame) bool { return x.path(v, f) == sizePath }
+			bad := ""
+			ko, kf := x.origin(s.Args()[1], fr)
+			kc, ok := ko.(*ssa.Call)
+			if !ok || !(CallSite{kc.Parent(), kc}).IsStatic("perkeep.org/pkg/blob", "Ref", "String") || x.path(kc.Call.Args[0], kf) != refPath {
+				bad = "the row key is not (blob.Ref).String() of the enqueued ref (the reload parses keys with blob.Parse)"
+			} else {
+				keyFn = kc.Call.StaticCallee()
+			}
+			vo, vf := x.origin(s.Args()[2], fr)
+			vc, ok := vo.(*ssa.Call)
+			if bad == "" {
+				switch {
+				case !ok:
+					bad = "the row value is not produced by a decimal formatter"
+				case (CallSite{vc.Parent(), vc}).IsStatic("fmt", "", "Sprint"):
+					var elems []ssa.Value
+					if sl, ok := vc.Call.Args[0].(*ssa.Slice); ok {
+						if al, ok := sl.X.(*ssa.Alloc); ok {
+							if refs := al.Referrers(); refs != nil {
+								for _, u := range *refs {
+									if ia, ok := u.(*ssa.IndexAddr); ok {
+										if rr := ia.Referrers(); rr != nil {
+											for _, y := range *rr {
+												if st, ok := y.(*ssa.Store); ok {
+													elems = append(elems, st.Val)
+												}
 											}
 										}
 									}
@@ -1705,27 +3747,32 @@ func c19YCodec(p *Program, r *Reporter, a *c19Anchors) {
 							}
 						}
 					}
+					if len(elems) != 1 {
+						bad = "the row value is fmt.Sprint of other than exactly one operand (the reload parses a bare base-10 integer)"
+					} else if mi, ok := elems[0].(*ssa.MakeInterface); !ok || !isInt(mi.X.Type()) || !isSize(mi.X, vf) {
+						bad = "the row value is not the decimal rendering of the enqueued size"
+					}
+				case (CallSite{vc.Parent(), vc}).IsStatic("strconv", "", "Itoa"):
+					if !x.flows(vc, vf, isSize) {
+						bad = "the row value is not the enqueued size"
+					}
+				case (CallSite{vc.Parent(), vc}).IsStatic("strconv", "", "FormatUint"), (CallSite{vc.Parent(), vc}).IsStatic("strconv", "", "FormatInt"):
+					if base, ok := ConstInt(vc.Call.Args[1]); !ok || base != 10 {
+						bad = "the row value is not base 10"
+					} else if !x.flows(vc, vf, isSize) {
+						bad = "the row value is not the enqueued size"
+					}
+				default:
+					bad = "the row value is not produced by a known decimal formatter (fmt.Sprint, strconv.Itoa/FormatUint/FormatInt base 10)"
 				}
-				if len(elems) != 1 {
-					bad = "the row value is fmt.Sprint of other than exactly one operand (the reload parses a bare base-10 integer)"
-				} else if mi, ok := elems[0].(*ssa.MakeInterface); !ok || !isInt(mi.X.Type()) || c19Path(mi.X) != job.Name()+".Size" {
-					bad = "the row value is not the decimal rendering of the enqueued size"
-				}
-			case (CallSite{vc.Parent(), vc}).IsStatic("strconv", "", "Itoa"):
-				if !c19Flows(vc, func(x ssa.Value) bool { return c19Path(x) == job.Name()+".Size" }) {
-					bad = "the row value is not the enqueued size"
-				}
-			case (CallSite{vc.Parent(), vc}).IsStatic("strconv", "", "FormatUint"), (CallSite{vc.Parent(), vc}).IsStatic("strconv", "", "FormatInt"):
-				if base, ok := ConstInt(vc.Call.Args[1]); !ok || base != 10 {
-					bad = "the row value is not base 10"
-				} else if !c19Flows(vc, func(x ssa.Value) bool { return c19Path(x) == job.Name()+".Size" }) {
-					bad = "the row value is not the enqueued size"
-				}
-			default:
-				bad = "the row value is not produced by a known decimal formatter (fmt.Sprint, strconv.Itoa/FormatUint/FormatInt base 10)"
 			}
+			r.Check(bad == "", "Y-codec", construct, p.Pos(s.Pos()), "row = (Ref.String() of the job, decimal size of the job)", bad+": rows written now would be dropped as bogus at the next start")
+		})
+	}
+	for _, s := range a.qSet {
+		if !seenSet[s.Instr] {
+			r.Undecided("Y-codec", FuncKey(TopFunc(s.Fn))+"#row-writer", p.Pos(s.Pos()), "this insertion into the queue is not reached from the registered enqueue hook through plain static calls; what it writes is not followed")
 		}
-		r.Check(bad == "", "Y-codec", construct, p.Pos(s.Pos()), "row = (Ref.String() of the job, decimal size of the job)", bad+": rows written now would be dropped as bogus at the next start")
 	}
 	for _, f := range a.qFind {
 		qe := TopFunc(f.Fn)
@@ -1739,50 +3786,58 @@ func c19YCodec(p *Program, r *Reporter, a *c19Anchors) {
 			return ok && c.Call.IsInvoke() && c.Call.Method.Name() == name && sameOrigin(c.Call.Value, it)
 		}
 		var refV, sizeV ssa.Value
+		var refF, sizeF *c19Frame
+		x := a.x
+		root := x.root(qe)
 		bad := "the reader does not parse the key with blob.Parse and the value with a base-10 integer parser"
-		for _, c := range CallsIn(qe, false) {
+		// the parse calls may sit in a helper that is handed it.Key() / it.Value()
+		argIs := func(v ssa.Value, fr *c19Frame, name string) bool {
+			o, _ := x.origin(v, fr)
+			return iterCall(o, name)
+		}
+		x.effectiveCalls(root, func(c CallSite, fr *c19Frame) {
 			if c.Value() == nil {
-				continue
+				return
 			}
 			switch {
-			case c.IsStatic("perkeep.org/pkg/blob", "", "Parse") && iterCall(c.Args()[0], "Key"):
-				refV = ResultValue(c.Value(), 0)
+			case c.IsStatic("perkeep.org/pkg/blob", "", "Parse") && argIs(c.Args()[0], fr, "Key"):
+				refV, refF = ResultValue(c.Value(), 0), fr
 			case c.IsStatic("strconv", "", "ParseUint") || c.IsStatic("strconv", "", "ParseInt"):
-				if !iterCall(c.Args()[0], "Value") {
-					continue
+				if !argIs(c.Args()[0], fr, "Value") {
+					return
 				}
 				base, ok1 := ConstInt(c.Args()[1])
 				bits, ok2 := ConstInt(c.Args()[2])
 				if !ok1 || base != 10 {
 					bad = "the row value is not parsed in base 10"
-					continue
+					return
 				}
 				if !ok2 || (bits != 0 && bits < 32) {
 					bad = "the row value is parsed with fewer than 32 bits (sizes are uint32)"
-					continue
+					return
 				}
-				sizeV = ResultValue(c.Value(), 0)
-			case c.IsStatic("strconv", "", "Atoi") && iterCall(c.Args()[0], "Value"):
-				sizeV = ResultValue(c.Value(), 0)
+				sizeV, sizeF = ResultValue(c.Value(), 0), fr
+			case c.IsStatic("strconv", "", "Atoi") && argIs(c.Args()[0], fr, "Value"):
+				sizeV, sizeF = ResultValue(c.Value(), 0), fr
 			}
-		}
+		})
 		okRead := false
 		if refV != nil && sizeV != nil {
 			for _, b := range qe.Blocks {
 				for _, in := range b.Instrs {
 					var sent []ssa.Value
-					switch x := in.(type) {
+					switch t := in.(type) {
 					case *ssa.Send:
-						sent = append(sent, x.X)
+						sent = append(sent, t.X)
 					case *ssa.Select:
-						for _, st := range x.States {
+						for _, st := range t.States {
 							if st.Dir == types.SendOnly {
 								sent = append(sent, st.Send)
 							}
 						}
 					}
 					for _, v := range sent {
-						if c19FlowsFrom(v, refV) && c19FlowsFrom(v, sizeV) {
+						if x.flowsFrom(v, root, refV, refF) && x.flowsFrom(v, root, sizeV, sizeF) {
 							okRead = true
 						}
 					}
@@ -1796,7 +3851,7 @@ func c19YCodec(p *Program, r *Reporter, a *c19Anchors) {
 	}
 	for _, d := range a.qDelete {
 		construct := FuncKey(d.Fn) + "#row-deleter"
-		kc, ok := originValue(d.Args()[1]).(*ssa.Call)
+		kc, ok := c19UpOrigin(p, d.Args()[1]).(*ssa.Call)
 		same := ok && keyFn != nil && kc.Call.StaticCallee() == keyFn
 		r.Check(same, "Y-codec", construct, p.Pos(d.Pos()), "the deleted key is rendered by the same function as the inserted key",
 			"the deleted key is not rendered by the function that renders the inserted key: the row of a copied blob is never removed (or another row is)")
@@ -1932,6 +3987,115 @@ func c19YMerge(p *Program, r *Reporter) {
 		r.Check(matched, "Y-merge", construct, p.Pos(c.Pos()), "the source element dropped here is under the fact that it equals the destination's head",
 			"a source element is taken and neither sent to destMissing nor known equal to the destination's head: a blob missing at the destination is silently skipped")
 	}
+	// the source peeker handed to a same-package helper (an extracted case body): what the
+	// helper takes from it is taken at the call; the call must be under the match fact
+	for _, c := range CallsIn(fn, false) {
+		g := c.Callee()
+		if g == nil || on(c, src, "Peek", "MustPeek", "Take", "MustTake", "ConsumeAll", "Closed") {
+			continue
+		}
+		idx := -1
+		for i, arg := range c.Args() {
+			if originValue(arg) == src {
+				idx = i
+			}
+		}
+		if idx < 0 {
+			continue
+		}
+		construct := key + "#src-take"
+		if c.Value() == nil || g.Blocks == nil || g.Synthetic != "" || g.Pkg != fn.Pkg || idx >= len(g.Params) {
+			r.Undecided("Y-merge", construct, p.Pos(c.Pos()), "the source enumeration is handed to "+c.CalleeKey()+", which is not followed: what it takes from the source is not known")
+			continue
+		}
+		takes, escapes := false, false
+		if refs := g.Params[idx].Referrers(); refs != nil {
+			for _, u := range *refs {
+				switch u := u.(type) {
+				case *ssa.DebugRef:
+				case ssa.CallInstruction:
+					hc := CallSite{g, u}
+					switch {
+					case hc.IsStatic("perkeep.org/pkg/blob", "ChanPeeker", "Take"), hc.IsStatic("perkeep.org/pkg/blob", "ChanPeeker", "MustTake"):
+						// a take that the helper itself sends on the output channel it was handed needs no match
+						sentInHelper := false
+						if tv := hc.Value(); tv != nil {
+							for j, arg := range c.Args() {
+								if originValue(arg) != ssa.Value(out) || j >= len(g.Params) {
+									continue
+								}
+								for _, hb := range g.Blocks {
+									for _, hin := range hb.Instrs {
+										if sd, ok := hin.(*ssa.Send); ok && originValue(sd.Chan) == ssa.Value(g.Params[j]) && c19FlowsFrom(sd.X, tv) &&
+											(sd.Block() == tv.Block() || tv.Block().Dominates(sd.Block())) {
+											sentInHelper = true
+										}
+									}
+								}
+							}
+						}
+						if !sentInHelper {
+							takes = true
+						}
+					case hc.IsStatic("perkeep.org/pkg/blob", "ChanPeeker", "ConsumeAll"):
+						takes = true
+					case hc.IsStatic("perkeep.org/pkg/blob", "ChanPeeker", "Peek"), hc.IsStatic("perkeep.org/pkg/blob", "ChanPeeker", "MustPeek"), hc.IsStatic("perkeep.org/pkg/blob", "ChanPeeker", "Closed"):
+					default:
+						escapes = true
+					}
+				default:
+					escapes = true
+				}
+			}
+		}
+		if escapes {
+			r.Undecided("Y-merge", construct, p.Pos(c.Pos()), "helper "+FuncKey(g)+" hands the source enumeration on; what is taken from it is not followed")
+			continue
+		}
+		// what the helper sends on the output channel comes from its source parameter only
+		for j, arg := range c.Args() {
+			if originValue(arg) != ssa.Value(out) || j >= len(g.Params) {
+				continue
+			}
+			for _, hb := range g.Blocks {
+				for _, hin := range hb.Instrs {
+					sd, ok := hin.(*ssa.Send)
+					if !ok || originValue(sd.Chan) != ssa.Value(g.Params[j]) {
+						continue
+					}
+					fromSrc := c19Flows(sd.X, func(v ssa.Value) bool {
+						call, ok := v.(*ssa.Call)
+						if !ok || len(call.Call.Args) == 0 || originValue(call.Call.Args[0]) != ssa.Value(g.Params[idx]) {
+							return false
+						}
+						hc := CallSite{g, call}
+						return hc.IsStatic("perkeep.org/pkg/blob", "ChanPeeker", "Take") || hc.IsStatic("perkeep.org/pkg/blob", "ChanPeeker", "MustTake") ||
+							hc.IsStatic("perkeep.org/pkg/blob", "ChanPeeker", "Peek") || hc.IsStatic("perkeep.org/pkg/blob", "ChanPeeker", "MustPeek")
+					})
+					r.Check(fromSrc, "Y-merge", key+"#send", p.Pos(sd.Pos()), "what helper "+FuncKey(g)+" reports missing comes from the source enumeration it was handed",
+						"helper "+FuncKey(g)+" reports as missing at the destination a value that is not taken from the source enumeration")
+				}
+			}
+		}
+		if !takes {
+			continue
+		}
+		nTakes++
+		matched := false
+		for _, f := range FactsAt(c.Block()) {
+			bo, ok := f.Cond.(*ssa.BinOp)
+			if !ok || !((bo.Op == token.EQL && f.Val) || (bo.Op == token.NEQ && !f.Val)) {
+				continue
+			}
+			xs, xd := c19Flows(bo.X, fromPeeker(src)), c19Flows(bo.X, fromPeeker(dst))
+			ys, yd := c19Flows(bo.Y, fromPeeker(src)), c19Flows(bo.Y, fromPeeker(dst))
+			if (xs && !xd && yd && !ys) || (ys && !yd && xd && !xs) {
+				matched = true
+			}
+		}
+		r.Check(matched, "Y-merge", construct, p.Pos(c.Pos()), "the source element taken inside helper "+FuncKey(g)+" is under the fact (at the call) that it equals the destination's head",
+			"helper "+FuncKey(g)+" takes a source element, and its call is not under the fact that the source's head equals the destination's head: a blob missing at the destination is silently skipped")
+	}
 	if nTakes == 0 {
 		r.Violation("Y-merge", key+"#src-take", p.Pos(fn.Pos()), "the source enumeration is never consumed")
 	}
@@ -1964,32 +4128,6 @@ type c19EnumInst struct {
 func c19IsChan(t types.Type) bool {
 	_, ok := t.Underlying().(*types.Chan)
 	return ok
-}
-
-// c19EnumSig finds the enumerator type: the unique parameter of runSync whose
-// type is a func(sendable chan, receivable chan) error.
-func c19EnumSig(runSync *ssa.Function) (*types.Signature, int) {
-	var sig *types.Signature
-	idx := -1
-	for i, prm := range runSync.Params {
-		s, ok := prm.Type().Underlying().(*types.Signature)
-		if !ok || s.Params().Len() != 2 || s.Results().Len() != 1 || !isErrorType(s.Results().At(0).Type()) {
-			continue
-		}
-		c0, ok0 := s.Params().At(0).Type().Underlying().(*types.Chan)
-		c1, ok1 := s.Params().At(1).Type().Underlying().(*types.Chan)
-		if !ok0 || !ok1 || c0.Dir() == types.RecvOnly || c1.Dir() == types.SendOnly {
-			continue
-		}
-		if sig != nil {
-			brokenf("anchor unresolved: %s has more than one enumerator-typed parameter", FuncKey(runSync))
-		}
-		sig, idx = s, i
-	}
-	if sig == nil {
-		brokenf("anchor unresolved: %s has no parameter of type func(chan<- T, <-chan struct{}) error", FuncKey(runSync))
-	}
-	return sig, idx
 }
 
 func c19ClosureFn(v ssa.Value) *ssa.Function {
@@ -2429,8 +4567,36 @@ func (k *c19Closer) onceCloses(c CallSite, root ssa.Value, depth int) bool {
 }
 
 func c19YEnumProtocol(p *Program, r *Reporter) {
-	runSync := p.Func("pkg/server", "SyncHandler", "runSync")
-	sig, _ := c19EnumSig(runSync)
+	// the enumerator type, by role: the one function type of the shape
+	// func(chan<- blob.SizedRef, <-chan T) error that a pkg/server function takes
+	// as a parameter (today: runSync's enumSrc)
+	var sig *types.Signature
+	var runSync *ssa.Function
+	for _, fn := range p.FuncsIn("pkg/server") {
+		if fn.Synthetic != "" || fn.Parent() != nil {
+			continue
+		}
+		for _, prm := range fn.Params {
+			sg, ok := prm.Type().Underlying().(*types.Signature)
+			if !ok || sg.Params().Len() != 2 || sg.Results().Len() != 1 || !isErrorType(sg.Results().At(0).Type()) {
+				continue
+			}
+			c0, ok0 := sg.Params().At(0).Type().Underlying().(*types.Chan)
+			c1, ok1 := sg.Params().At(1).Type().Underlying().(*types.Chan)
+			if !ok0 || !ok1 || c0.Dir() == types.RecvOnly || c1.Dir() == types.SendOnly || !IsNamed(c0.Elem(), "perkeep.org/pkg/blob", "SizedRef") {
+				continue
+			}
+			if sig != nil && !types.Identical(sig, sg) {
+				brokenf("anchor unresolved: pkg/server has more than one enumerator-shaped parameter type")
+			}
+			if sig == nil {
+				sig, runSync = sg, fn
+			}
+		}
+	}
+	if sig == nil {
+		brokenf("anchor unresolved: no pkg/server function takes a func(chan<- blob.SizedRef, <-chan T) error parameter")
+	}
 
 	// launches: calls of an enumerator-typed value in pkg/server
 	var launches []*c19Launch
@@ -2611,6 +4777,66 @@ func c19SendsInterruptible(p *Program, fn *ssa.Function, dst, intr ssa.Value, de
 	return
 }
 
+// c19DrainsUntilClosed: helper g uses its channel parameter idx only to receive
+// from it with a closed-test (range), and every path from a loop body leads
+// back to the receive: g leaves the loop only when the channel is closed.
+func c19DrainsUntilClosed(g *ssa.Function, idx int) bool {
+	if g == nil || g.Blocks == nil || g.Synthetic != "" || idx >= len(g.Params) {
+		return false
+	}
+	uses := c19ChanUses(g, g.Params[idx])
+	if len(uses) == 0 {
+		return false
+	}
+	for _, u := range uses {
+		if u.kind != "recv-ok" || u.in.Parent() != g {
+			return false
+		}
+		h := u.in.(*ssa.UnOp)
+		ifi, ok := c19LastInstr(h.Block()).(*ssa.If)
+		if !ok {
+			return false
+		}
+		ex, ok := ifi.Cond.(*ssa.Extract)
+		if !ok || ex.Tuple != ssa.Value(h) || ex.Index != 1 {
+			return false
+		}
+		okLoop := true
+		seen := map[*ssa.BasicBlock]bool{}
+		var walk func(b *ssa.BasicBlock)
+		walk = func(b *ssa.BasicBlock) {
+			if !okLoop || b == h.Block() || seen[b] {
+				return
+			}
+			seen[b] = true
+			switch c19LastInstr(b).(type) {
+			case *ssa.Return:
+				okLoop = false
+				return
+			case *ssa.Panic:
+				return
+			}
+			if len(b.Succs) == 0 {
+				okLoop = false
+				return
+			}
+			for _, sc := range b.Succs {
+				walk(sc)
+			}
+		}
+		walk(h.Block().Succs[0])
+		// the loop body must not be able to reach the code behind the loop other than through the header
+		if !okLoop {
+			return false
+		}
+		done := h.Block().Succs[1]
+		if seen[done] {
+			return false
+		}
+	}
+	return true
+}
+
 // c19ConsumerRule (Y-stop, consumer side). For the launch `res <- enum(ch, intr)`:
 // on every path that leaves the loop receiving from ch on another edge than
 // "ch closed" and then reaches a receive of the enumerator's result, intr has
@@ -2623,10 +4849,33 @@ func c19ConsumerRule(p *Program, r *Reporter, l *c19Launch) (earlyExit, decided 
 		r.Undecided("Y-stop", construct, site, s)
 		return false, false
 	}
-	E := originValue(l.dst)
-	I := originValue(l.intr)
-	if mk, ok := E.(*ssa.MakeChan); !ok || mk.Parent() != top {
+	// the channels are followed to where they are made: through captured variables
+	// and through the parameters of a single-caller launcher (a go literal turned
+	// into a method receives as parameters what the literal captured)
+	E := c19UpOrigin(p, l.dst)
+	I := c19UpOrigin(p, l.intr)
+	launcher := TopFunc(l.call.Fn)
+	if mk, ok := E.(*ssa.MakeChan); !ok {
 		return und("the channel handed to the enumerator is not made in the consuming function; the consumer cannot be identified")
+	} else if TopFunc(mk.Parent()) != top {
+		top = TopFunc(mk.Parent())
+		l.top = top
+		construct = FuncKey(top) + "#wait-for-enumerator"
+	}
+	if mk := E.(*ssa.MakeChan); mk.Parent() != top {
+		return und("the channel handed to the enumerator is made inside a function literal of the consumer; the consumer's loop is not followed")
+	}
+	// onlyLaunches: parameter prm of the launcher is used for nothing but the launch
+	onlyLaunches := func(g *ssa.Function, idx int) bool {
+		if g != launcher || g == top || idx >= len(g.Params) {
+			return false
+		}
+		for _, u := range c19ChanUses(g, g.Params[idx]) {
+			if u.kind != "arg" || u.in != ssa.Instruction(l.call.Instr) {
+				return false
+			}
+		}
+		return true
 	}
 	switch I.(type) {
 	case *ssa.MakeChan, *ssa.Parameter:
@@ -2634,11 +4883,19 @@ func c19ConsumerRule(p *Program, r *Reporter, l *c19Launch) (earlyExit, decided 
 		return und("the interrupt channel handed to the enumerator is not a single channel value (made here, or a parameter)")
 	}
 	// how the consumer receives
+	drained := false // the channel is handed to a helper that receives from it until it is closed
 	var headers []*ssa.UnOp
 	for _, u := range c19ChanUses(top, E) {
 		switch u.kind {
 		case "arg":
 			if u.in == ssa.Instruction(l.call.Instr) {
+				continue
+			}
+			if onlyLaunches((CallSite{u.in.Parent(), u.in.(ssa.CallInstruction)}).Callee(), u.arg) {
+				continue
+			}
+			if _, plain := u.in.(*ssa.Call); plain && u.in.Parent() == top && c19DrainsUntilClosed((CallSite{u.in.Parent(), u.in.(ssa.CallInstruction)}).Callee(), u.arg) {
+				drained = true
 				continue
 			}
 			return und("the element channel is also handed to " + (CallSite{u.in.Parent(), u.in.(ssa.CallInstruction)}).CalleeKey() + "; its receivers cannot be enumerated")
@@ -2651,7 +4908,7 @@ func c19ConsumerRule(p *Program, r *Reporter, l *c19Launch) (earlyExit, decided 
 			return und("the consumer uses the element channel by " + u.kind + " at " + p.Pos(u.in.Pos()) + "; shape not recognised (expected: range / v, ok := <-ch)")
 		}
 	}
-	if len(headers) == 0 {
+	if len(headers) == 0 && !drained {
 		return und("the consumer never receives from the element channel with a closed-test (range); shape not recognised")
 	}
 	// how the consumer learns the enumerator's result
@@ -2663,7 +4920,7 @@ func c19ConsumerRule(p *Program, r *Reporter, l *c19Launch) (earlyExit, decided 
 			if !ok || snd.X != ssa.Value(val) {
 				return und("the enumerator's result is used other than by sending it on a channel; how the consumer waits for it is not recognised")
 			}
-			x := originValue(snd.Chan)
+			x := c19UpOrigin(p, snd.Chan)
 			if X != nil && X != x {
 				return und("the enumerator's result is sent on more than one channel")
 			}
@@ -2685,6 +4942,20 @@ func c19ConsumerRule(p *Program, r *Reporter, l *c19Launch) (earlyExit, decided 
 		case "send", "select-send":
 			// the launch's own send (and other producers) need no ordering
 		case "close":
+		case "arg":
+			// handed to the launcher, which only sends the enumerator's result on it
+			g := (CallSite{u.in.Parent(), u.in.(ssa.CallInstruction)}).Callee()
+			okArg := g != nil && g == launcher && g != top && u.arg < len(g.Params)
+			if okArg {
+				for _, u2 := range c19ChanUses(g, g.Params[u.arg]) {
+					if u2.kind != "send" && u2.kind != "select-send" {
+						okArg = false
+					}
+				}
+			}
+			if !okArg {
+				return und("the result channel is handed to another function at " + p.Pos(u.in.Pos()) + "; its receivers cannot be enumerated")
+			}
 		default:
 			return und("the result channel is used by " + u.kind + " at " + p.Pos(u.in.Pos()) + "; its receivers cannot be enumerated")
 		}
